@@ -49,12 +49,12 @@ Proof.
   intros sc ce rho n0 lim o P O a b m g m' g' HP HO (E & Hn & Hl & Hp) C Hm.
   split; [eapply envOK_chg; eauto|]. split; [destruct Hm; lia|]. split; [destruct C; lia|]. eapply HP; eauto.
 Qed.
-Lemma Jstd_keep : forall c o3 sc ce rho n0 lim o (P : list sv -> nat -> gx -> Prop) a b m g m' g',
-  (forall x y k h k' h', P x k h -> keepS c o3 x y -> cle k h k' h' -> P y k' h') ->
+Lemma Jstd_keep : forall c sc ce rho n0 lim o (P : list sv -> nat -> gx -> Prop) a b m g m' g',
+  (forall x y k h k' h', P x k h -> keepK c x y -> cle k h k' h' -> P y k' h') ->
   (forall i, kept sc ce i -> g_keep c i) ->
-  Jstd sc ce rho n0 lim o P a m g -> keepS c o3 a b -> cle m g m' g' -> Jstd sc ce rho n0 lim o P b m' g'.
+  Jstd sc ce rho n0 lim o P a m g -> keepK c a b -> cle m g m' g' -> Jstd sc ce rho n0 lim o P b m' g'.
 Proof.
-  intros c o3 sc ce rho n0 lim o P a b m g m' g' HP HK (E & Hn & Hl & Hp) C Hm.
+  intros c sc ce rho n0 lim o P a b m g m' g' HP HK (E & Hn & Hl & Hp) C Hm.
   split; [eapply envOK_keep; eauto|]. split; [destruct Hm; lia|]. split; [destruct C; lia|]. eapply HP; eauto.
 Qed.
 
@@ -63,12 +63,12 @@ Qed.
 Lemma stable_sub : forall sc pc' st fk lo hi o ko K ce n0 t (P : list sv -> nat -> gx -> Prop),
   stable (ctx_of sc pc' st fk lo hi o ko K ce n0 t) P ->
   (forall (O : nat -> Prop) x y k h k' h', (forall i, O i -> lo <= i < hi \/ o <= i) -> P x k h -> chg O x y -> cle k h k' h' -> P y k' h') /\
-  (forall cx o3 x y k h k' h', g_keep cx = K -> g_koff cx = ko -> o <= o3 -> P x k h -> keepS cx o3 x y -> cle k h k' h' -> P y k' h').
+  (forall cx (o3 : nat) x y k h k' h', g_keep cx = K -> g_koff cx = ko -> o <= o3 -> P x k h -> keepK cx x y -> cle k h k' h' -> P y k' h').
 Proof.
   intros sc pc' st fk lo hi o ko K ce n0 t P [S1 S2]. split.
   - intros O x y k h k' h' HO Hp C Hk. eapply S1; [exact Hp| |exact Hk]. eapply chg_mono; [|exact C]. exact HO.
-  - intros cx o3 x y k h k' h' HK Hko Ho Hp C Hk. refine (S2 o3 x y k h k' h' Ho Hp _ Hk).
-    unfold keepS in *. simpl. rewrite <- HK, <- Hko. exact C.
+  - intros cx o3 x y k h k' h' HK Hko Ho Hp C Hk. refine (S2 x y k h k' h' Hp _ Hk).
+    unfold keepK in *. simpl. rewrite <- HK. exact C.
 Qed.
 
 Lemma impl_id : Impl QId.
@@ -79,7 +79,7 @@ Proof.
   - apply chg_refl.
   - cl.
   - simpl; lia.
-  - intros vs2 n2 g2 Kp L. eapply (S2 o); eauto; simpl; lia.
+  - intros vs2 n2 g2 Kp L. eapply S2; eauto.
 Qed.
 
 Lemma impl_const : forall k, Impl (QConst k).
@@ -90,7 +90,7 @@ Proof.
   - apply chg_refl.
   - cl.
   - simpl; lia.
-  - intros vs2 n2 g2 Kp L. eapply (S2 o); eauto; simpl; lia.
+  - intros vs2 n2 g2 Kp L. eapply S2; eauto.
 Qed.
 
 Lemma impl_empty : Impl QEmpty.
@@ -113,7 +113,7 @@ Proof.
     + apply chg_refl.
     + cl.
     + simpl; lia.
-    + intros vs2 n2 g2 Kp L. eapply (S2 o); eauto; simpl; lia.
+    + intros vs2 n2 g2 Kp L. eapply S2; eauto.
   - eapply G_end with (vs3 := vs) (n3 := n) (g3 := g).
     + subst c; simpl. one st_call0_err. constructor.
     + apply chg_refl.
@@ -133,7 +133,7 @@ Proof.
   - apply chg_refl.
   - cl.
   - simpl; lia.
-  - intros vs2 n2 g2 Kp L. eapply (S2 o); eauto; simpl; lia.
+  - intros vs2 n2 g2 Kp L. eapply S2; eauto.
 Qed.
 
 Lemma impl_break : forall l, Impl (QBreak l).
@@ -244,7 +244,7 @@ Lemma impl_body : forall q, Impl q -> forall sc cur base, (forall k, index_of sc
     envOK sc ceq rhoq vs (g_n0 cx) (base + nvq) -> g_n0 cx <= n -> base + nvq' <= g_koff cx -> g_koff cx <= o ->
     o <= length vs -> g_ctr cx <= ctr g ->
     (forall a b m x m' x', P a m x -> chg (fun i => base + nvq <= i < base + nvq' \/ o <= i) a b -> cle m x m' x' -> P b m' x') ->
-    (forall o3 a b m x m' x', o <= o3 -> P a m x -> keepS cx o3 a b -> cle m x m' x' -> P b m' x') ->
+    (forall (o3 : nat) a b m x m' x', o <= o3 -> P a m x -> keepK cx a b -> cle m x m' x' -> P b m' x') ->
     P vs n g ->
     G cx (fst (den q rhoq v)) (Tend cx (snd (den q rhoq v)) P) (N sc pcq (SV v :: g_st cx) (g_base cx) vs n o g).
 Proof.
@@ -253,24 +253,25 @@ Proof.
                 (g_keep cx) P HE Hn Hko Hoo Hl Hk1 Hk2) as H.
   cbv zeta in H.
   refine (G_sub nt code (ctx_of sc (pcq + length cq) (g_st cx) (g_base cx) (base + nvq) (base + nvq') o (g_koff cx) (g_keep cx) ceq (g_n0 cx) (ctr g))
-            cx _ _ (eq_sym Hsc) (eq_sym Hpc) eq_refl eq_refl Hown _ (le_n _) _ Hct _ _ _ (H _ HP)).
+            cx _ _ (eq_sym Hsc) (eq_sym Hpc) eq_refl eq_refl Hown _ _ (le_n _) _ Hct _ _ _ (H _ HP)).
   - intros o3 a b Kp. exact Kp.
+  - intros a b Kp. exact Kp.
   - simpl. lia.
   - intros s0 (e & vs4 & n4 & g4 & St & Ch & Le & HE4 & HP4). exists e, vs4, n4, g4. simpl in *.
     split; [exact St|]. split; [exact (chg_mono _ _ _ _ Hown Ch)|]. split; [exact Le|]. split; [|exact HP4].
     rewrite Hsc. eapply encR_lbls; [|exact HE4]. auto.
-  - split; [exact HP1|]. intros o3 a b m x m' x' Ho3 Hp Kp Hm. eapply HP2; eauto.
+  - split; [exact HP1|]. intros a b m x m' x' Hp Kp Hm. eapply (HP2 o); eauto.
 Qed.
 
 (* Jstd is stable in any context that keeps K, the area from ko on, and writes above lim only *)
 Lemma Jstd_stable_cx : forall cx sc ce rho n0 lim o ko lo hi (P : list sv -> nat -> gx -> Prop) K,
   (forall (O : nat -> Prop) x y k h k' h', (forall i, O i -> lo <= i < hi \/ o <= i) -> P x k h -> chg O x y -> cle k h k' h' -> P y k' h') ->
-  (forall cx o3 x y k h k' h', g_keep cx = K -> g_koff cx = ko -> o <= o3 -> P x k h -> keepS cx o3 x y -> cle k h k' h' -> P y k' h') ->
+  (forall cx (o3 : nat) x y k h k' h', g_keep cx = K -> g_koff cx = ko -> o <= o3 -> P x k h -> keepK cx x y -> cle k h k' h' -> P y k' h') ->
   (forall i, kept sc ce i -> K i) -> g_keep cx = K -> g_koff cx = ko ->
-  forall o3 a b m g m' g', o <= o3 -> Jstd sc ce rho n0 lim o P a m g -> keepS cx o3 a b -> cle m g m' g' -> Jstd sc ce rho n0 lim o P b m' g'.
+  forall (o3 : nat) a b m g m' g', o <= o3 -> Jstd sc ce rho n0 lim o P a m g -> keepK cx a b -> cle m g m' g' -> Jstd sc ce rho n0 lim o P b m' g'.
 Proof.
   intros cx sc ce rho n0 lim o ko lo hi P K S1' S2' HK2 HKe Hko o3 a b m g m' g' Ho Hj Kp Hm.
-  refine (Jstd_keep cx o3 _ _ _ _ _ _ _ _ _ _ _ _ _ _ _ Hj Kp Hm).
+  refine (Jstd_keep cx _ _ _ _ _ _ _ _ _ _ _ _ _ _ _ Hj Kp Hm).
   - intros x y k h k' h' Hp Kq Hk. exact (S2' cx o3 x y k h k' h' HKe Hko Ho Hp Kq Hk).
   - rewrite HKe. exact HK2.
 Qed.
@@ -327,15 +328,15 @@ Qed.
 (* P := Jstd is itself stable in a context whose own range lies inside [lo, hi) *)
 Lemma Jstd_stable : forall sc' pc' st fk lo' hi' o' ko K ce' n0' t sc ce rho n0 lim o lo hi (P : list sv -> nat -> gx -> Prop),
   (forall (O : nat -> Prop) x y k h k' h', (forall i, O i -> lo <= i < hi \/ o <= i) -> P x k h -> chg O x y -> cle k h k' h' -> P y k' h') ->
-  (forall cx o3 x y k h k' h', g_keep cx = K -> g_koff cx = ko -> o <= o3 -> P x k h -> keepS cx o3 x y -> cle k h k' h' -> P y k' h') ->
+  (forall cx (o3 : nat) x y k h k' h', g_keep cx = K -> g_koff cx = ko -> o <= o3 -> P x k h -> keepK cx x y -> cle k h k' h' -> P y k' h') ->
   (forall i, kept sc ce i -> K i) -> lo <= lo' -> hi' <= hi -> o <= o' -> lim <= lo -> lim <= o ->
   stable (ctx_of sc' pc' st fk lo' hi' o' ko K ce' n0' t) (Jstd sc ce rho n0 lim o P).
 Proof.
   intros sc' pc' st fk lo' hi' o' ko K ce' n0' t sc ce rho n0 lim o lo hi P S1' S2' HK2 H1 H2 H3 H4 H5. split.
   - intros p q m g m' g' Hj C Hm.
     eapply (Jstd_chg' _ _ _ _ _ _ lo hi); [exact S1'| |exact Hj|exact C|exact Hm]. simpl; intros; lia.
-  - intros o3 p q m g m' g' Ho3 Hj C Hm.
-    refine (Jstd_stable_cx _ _ _ _ _ _ _ _ _ _ _ K S1' S2' HK2 _ _ o3 _ _ _ _ _ _ _ Hj C Hm); [reflexivity|reflexivity|simpl in Ho3; lia].
+  - intros p q m g m' g' Hj C Hm.
+    refine (Jstd_stable_cx _ _ _ _ _ _ _ _ _ _ _ K S1' S2' HK2 _ _ o _ _ _ _ _ _ _ Hj C Hm); [reflexivity|reflexivity|lia].
 Qed.
 
 Lemma fork_transparent : forall sc pc t st o u fk x vs n g, at_ pc (Ifork t) ->
@@ -376,31 +377,1295 @@ Proof.
   assert (Hfx : Forall (fun f => g_ctr c <= f_ctr f) [fx]) by (constructor; [simpl; lia|constructor]).
   cbn [Den.den]. destruct (den a rho v) as [wsa [xa|]] eqn:Ea; cbn [seq fst snd] in *.
   - (* a raised: the fork propagates the error *)
-    refine (G_ctx nt code ca' c [fx] (fun _ _ _ => True) _ _ eq_refl eq_refl eq_refl eq_refl _ _ (le_n _) (le_n _) (le_n _) Hfx _ _ _ _ _ _ I HA); auto.
-    + simpl; intros; lia.
+    match type of HA with G _ ?w0 _ ?st0 => refine (G_ctx nt code ca' c [fx] (fun _ _ gg => ctr g <= ctr gg) _ _ eq_refl eq_refl eq_refl eq_refl _ _ _ (le_n _) (le_n _) (le_n _) Hfx _ _ _ _ w0 st0 (le_n _) HA) end; auto;
+      try (intros; unfold cle in *; simpl in *; lia).
     + intros x vs' n' g' _ _. exists vs', n', g'. split; [eapply fork_transparent; eauto|]. split; [apply chg_refl|cl].
-    + intros s1 _ (e & vs4 & n4 & g4 & St4 & Ch4 & Le4 & HE4 & HP4).
+    + intros z1 _ (e & vs4 & n4 & g4 & St4 & Ch4 & Le4 & HE4 & HP4).
       destruct (encR_some _ _ _ _ _ HE4) as (y & ->). simpl in St4, Ch4.
       exists (Some y), vs4, n4, g4. split; [eapply steps_trans; [exact St4|eapply fork_transparent; eauto]|].
       split; [eapply chg_mono; [|exact Ch4]; simpl; intros; lia|]. split; [auto|]. split; [exact HE4|apply HP4].
   - (* a ended: the fork resumes at b *)
     apply G_app.
-    refine (G_ctx nt code ca' c [fx] (fun _ _ _ => True) _ _ eq_refl eq_refl eq_refl eq_refl _ _ (le_n _) (le_n _) (le_n _) Hfx _ _ _ _ _ _ I HA); auto.
-    + simpl; intros; lia.
+    match type of HA with G _ ?w0 _ ?st0 => refine (G_ctx nt code ca' c [fx] (fun _ _ gg => ctr g <= ctr gg) _ _ eq_refl eq_refl eq_refl eq_refl _ _ _ (le_n _) (le_n _) (le_n _) Hfx _ _ _ _ w0 st0 (le_n _) HA) end; auto;
+      try (intros; unfold cle in *; simpl in *; lia).
     + intros x vs' n' g' _ _. exists vs', n', g'. split; [eapply fork_transparent; eauto|]. split; [apply chg_refl|cl].
-    + intros s1 _ (e & vs4 & n4 & g4 & St4 & Ch4 & Le4 & HE4 & (E4 & Hn4 & Hl4 & HP4)). simpl in St4, Ch4, HE4. subst e.
+    + intros z1 HQz (e & vs4 & n4 & g4 & St4 & Ch4 & Le4 & HE4 & (E4 & Hn4 & Hl4 & HP4)). simpl in St4, Ch4, HE4. subst e.
       eapply G_pre; [eapply steps_trans; [exact St4|one st_popfork; one bt_fork_none; constructor]
                     |eapply chg_mono; [|exact Ch4]; simpl; intros; lia|exact Le4|].
       pose proof (IHb sc cur base Hcur ce L n1 s1 cb n2 s2 Ec0 Hatb rho v st fk vs4 n4 n0 o ko g4 K P) as HB. cbv zeta in HB.
       refine (G_sub nt code (ctx_of sc (L + length cb) st fk (base + n1) (base + n2) o ko K ce n0 (ctr g4)) c _ _
-                eq_refl eq_refl eq_refl eq_refl _ _ (le_n _) (le_n _) _ _ _ _ (HB _ _ _ _ _ _ _ _ _)); auto; try lia.
+                eq_refl eq_refl eq_refl eq_refl _ _ _ (le_n _) (le_n _) _ _ _ _ (HB _ _ _ _ _ _ _ _ _)); auto; try lia.
       * simpl; intros; lia.
-      * simpl. destruct Le4 as [_ Le4]. simpl in Le4. lia.
+      * simpl. destruct Le4 as [_ Le4]. lia.
       * intros s2'. apply Tend_sub; auto. simpl; intros; lia.
       * eapply envOK_lim; eauto. lia.
       * intros; apply HK1; lia.
-      * split; [intros p q m x m' x' Hp C Hm; eapply S1'; eauto; simpl; intros; lia
-               |intros o3 p q m x m' x' Ho3 Hp C Hm; eapply (S2' _ o3); eauto; simpl in *; lia].
+      * split; [intros p q m x m' x' Hp C Hm; eapply (S1' (fun i => base + n1 <= i < base + n2 \/ o <= i)); [simpl; intros; lia|exact Hp|exact C|exact Hm]
+               |intros p q m x m' x' Hp C Hm; refine (S2' _ o _ _ _ _ _ _ _ _ _ Hp C Hm); [reflexivity|reflexivity|lia]].
+Qed.
+
+Lemma stable_P_sub : forall sc' pc' st fk lo' hi' o' ko K ce' n0' t lo hi o (P : list sv -> nat -> gx -> Prop),
+  (forall (O : nat -> Prop) x y k h k' h', (forall i, O i -> lo <= i < hi \/ o <= i) -> P x k h -> chg O x y -> cle k h k' h' -> P y k' h') ->
+  (forall cx (o3 : nat) x y k h k' h', g_keep cx = K -> g_koff cx = ko -> o <= o3 -> P x k h -> keepK cx x y -> cle k h k' h' -> P y k' h') ->
+  lo <= lo' -> hi' <= hi -> o <= o' ->
+  stable (ctx_of sc' pc' st fk lo' hi' o' ko K ce' n0' t) P.
+Proof.
+  intros sc' pc' st fk lo' hi' o' ko K ce' n0' t lo hi o P S1' S2' H1 H2 H3. split.
+  - intros p q m x m' x' Hp C Hm. eapply (S1' _ p q m x m' x'); [|exact Hp|exact C|exact Hm]. simpl; intros; lia.
+  - intros p q m x m' x' Hp C Hm. refine (S2' _ o _ _ _ _ _ _ _ _ _ Hp C Hm); [reflexivity|reflexivity|lia].
+Qed.
+
+(* opiter enumerating the rest of a list *)
+Lemma G_iter_list : forall cx pcI o (P : list sv -> nat -> gx -> Prop), at_ pcI Iiter -> g_pc cx = S pcI -> g_off cx <= o ->
+  (forall a b m x m' x', P a m x -> keepK cx a b -> cle m x m' x' -> P b m' x') ->
+  forall xs vs n g, P vs n g -> o <= length vs -> g_ctr cx <= ctr g ->
+  G cx xs (Tend cx None P) (iter_state (g_sc cx) pcI xs (g_st cx) (g_base cx) vs n o g).
+Proof.
+  intros cx pcI o P Hat Hpc Hoff HP. induction xs as [|x r IH]; intros vs n g Hp Hl Hc.
+  - simpl. eapply G_end; [apply steps_refl|apply chg_refl|cl|reflexivity|auto].
+  - destruct r as [|y r].
+    + simpl. eapply G_single; [rewrite Hpc; apply steps_refl|apply chg_refl|cl|simpl; lia|].
+      intros; eapply HP; eauto.
+    + change (G cx (x :: y :: r) (Tend cx None P)
+                (N (g_sc cx) (S pcI) (SV x :: g_st cx) (F (g_sc cx) pcI (SIt (y :: r) :: g_st cx) o (ctr g) :: g_base cx) vs n o g)).
+      eapply (G_cons nt code cx x (y :: r) _ _ [F (g_sc cx) pcI (SIt (y :: r) :: g_st cx) o (ctr g)] vs n o g);
+        [rewrite Hpc; apply steps_refl|apply chg_refl|cl|simpl; lia|constructor; [simpl; lia|constructor]|].
+      intros vs2 n2 g2 Kp L2. split.
+      * simpl app. eapply G_pre; [one st_popfork; one bt_iter_none; apply steps_refl|rewrite iter_state_vars; apply chg_refl
+                                 |rewrite iter_state_lbl, iter_state_gx; cl|].
+        apply IH; [eapply HP; [eauto|exact (keepS_K _ _ _ _ Kp)|eauto]|destruct Kp; lia|destruct L2; lia].
+      * intros e _. exists vs2, n2, g2. simpl app. split; [one st_popfork; one bt_iter_err; apply steps_refl|].
+        split; [apply chg_refl|cl].
+Qed.
+
+Lemma G_iter : forall cx pcI o (P : list sv -> nat -> gx -> Prop) w vs n g, at_ pcI Iiter -> g_pc cx = S pcI -> g_off cx <= o ->
+  (forall a b m x m' x', P a m x -> keepK cx a b -> cle m x m' x' -> P b m' x') -> P vs n g -> o <= length vs -> g_ctr cx <= ctr g ->
+  G cx (fst (iter_res nt w)) (Tend cx (snd (iter_res nt w)) P) (N (g_sc cx) pcI (SV w :: g_st cx) (g_base cx) vs n o g).
+Proof.
+  intros cx pcI o P w vs n g Hat Hpc Hoff HP Hp Hl Hc. unfold iter_res. destruct (n_iter nt w) as [xs|e] eqn:E; cbn [fst snd].
+  - eapply G_pre; [one st_iter_ok; apply steps_refl|rewrite iter_state_vars; apply chg_refl
+                  |rewrite iter_state_lbl, iter_state_gx; cl|eapply G_iter_list; eauto].
+  - eapply G_end; [one st_iter_err; apply steps_refl|apply chg_refl|cl|reflexivity|auto].
+Qed.
+
+Lemma G_index : forall cx pcI k o (P : list sv -> nat -> gx -> Prop) w vs n g, at_ pcI (Iindex k) -> g_pc cx = S pcI -> g_off cx <= o ->
+  (forall a b m x m' x', P a m x -> keepK cx a b -> cle m x m' x' -> P b m' x') -> P vs n g -> o <= length vs -> g_ctr cx <= ctr g ->
+  G cx (fst (of_sum (n_index nt w k))) (Tend cx (snd (of_sum (n_index nt w k))) P)
+    (N (g_sc cx) pcI (SV w :: g_st cx) (g_base cx) vs n o g).
+Proof.
+  intros cx pcI k o P w vs n g Hat Hpc Hoff HP Hp Hl Hc. destruct (n_index nt w k) as [r|e] eqn:E; cbn [of_sum fst snd].
+  - eapply G_single; [rewrite Hpc; one st_index_ok; apply steps_refl|apply chg_refl|cl|simpl; lia|].
+    intros; eapply HP; eauto.
+  - eapply G_end; [one st_index_err; apply steps_refl|apply chg_refl|cl|reflexivity|auto].
+Qed.
+
+(* t followed by one instruction that is a generator on the top of the stack *)
+Lemma postfix_std : forall t (f : jv -> result) (i : instr), Impl t ->
+  (forall cx pcI o (P : list sv -> nat -> gx -> Prop) w vs n g, at_ pcI i -> g_pc cx = S pcI -> g_off cx <= o ->
+     (forall a b m x m' x', P a m x -> keepK cx a b -> cle m x m' x' -> P b m' x') -> P vs n g -> o <= length vs -> g_ctr cx <= ctr g ->
+     G cx (fst (f w)) (Tend cx (snd (f w)) P) (N (g_sc cx) pcI (SV w :: g_st cx) (g_base cx) vs n o g)) ->
+  forall sc cur base, (forall k, index_of sc (cur, k) = Some (base + k)) ->
+  forall ce pc nv sn ct nv' sn', comp t ce cur pc nv sn = Some (ct, nv', sn') -> code_at pc (ct ++ [i]) ->
+  forall rho v st fk vs n n0 o ko g (K : nat -> Prop) (P : list sv -> nat -> gx -> Prop),
+    envOK sc ce rho vs n0 (base + nv) -> n0 <= n -> base + nv' <= ko -> ko <= o -> o <= length vs ->
+    (forall i, base + nv <= i < base + nv' -> K i) -> (forall i, kept sc ce i -> K i) ->
+    let c := ctx_of sc (pc + length (ct ++ [i])) st fk (base + nv) (base + nv') o ko K ce n0 (ctr g) in
+    stable c P -> P vs n g ->
+    G c (fst (bind (den t rho v) f)) (Tend c (snd (bind (den t rho v) f)) P) (N sc pc (SV v :: st) fk vs n o g).
+Proof.
+  intros t f i IHt Hbody sc cur base Hcur ce pc nv sn ct nv' sn' Ec Hat rho v st fk vs n n0 o ko g K P HE Hn Hko Hoo Hlen HK1 HK2 c HS HP.
+  destruct (code_at_app _ _ _ _ Hat) as [Hatt Hati]. uncons Hati Ai.
+  destruct (comp_mono _ _ _ _ _ _ _ _ _ Ec) as [M1 _].
+  std_facts. destruct (stable_sub _ _ _ _ _ _ _ _ _ _ _ _ _ HS) as [S1' S2'].
+  pose proof (impl_inner t IHt sc cur base Hcur ce pc nv sn ct nv' sn' Ec Hatt rho v st fk vs n n0 o g HE Hn ltac:(lia) Hlen) as HA.
+  cbv zeta in HA.
+  assert (Epc : pc + length (ct ++ [i]) = S (pc + length ct)) by (rewrite app_length; simpl; lia).
+  subst c. rewrite Epc in *.
+  eapply G_impl; [|refine (bind_std f (fun _ => True) sc (pc + length ct) st (base + nv) (base + nv') (S (pc + length ct)) st fk
+            (base + nv) (base + nv') o ko K ce n0 (ctr g) rho (base + nv) P (fun _ => False) ce
+            HS (le_n _) (le_n _) Hko Hoo (le_n _) ltac:(lia) Hkl HK1 HK2 _ eq_refl _ _ (den t rho v) _ HA _ (le_n _))].
+  - intros s0. apply Tend_weaken. intros p m x [Hp _]. exact Hp.
+  - intros j [].
+  - auto.
+  - intros w fk' vs' n' o' x Hj Ho' Ht' Hfk.
+    apply (Hbody (cbody (ctx_of sc (S (pc + length ct)) st fk (base + nv) (base + nv') o ko K ce n0 (ctr g)) (fun _ => False) ce fk' o' (ctr x))
+                 (pc + length ct) o'); simpl; auto; try lia.
+    intros a b m y m' y' [Hja _] Kp Hm. split; auto.
+    refine (Jstd_stable_cx _ _ _ _ _ _ _ _ _ _ _ K S1' S2' HK2 _ _ o' _ _ _ _ _ _ _ Hja Kp Hm); [reflexivity|reflexivity|lia].
+  - split; [|auto]. split; auto.
+Qed.
+
+Lemma impl_iter : forall t, Impl t -> Impl (QIter t).
+Proof.
+  intros t IHt. impl_intro. simpl in Hc.
+  destruct (comp t ce cur pc nv sn) as [[[ct n1] s1]|] eqn:Ec; [|discriminate]. inversion Hc; subst cq nv' sn'. clear Hc.
+  cbn [Den.den]. eapply postfix_std; eauto. intros; apply G_iter; auto. split; auto.
+Qed.
+
+Lemma impl_index : forall t k, Impl t -> Impl (QIndex t k).
+Proof.
+  intros t k IHt. impl_intro. simpl in Hc.
+  destruct (comp t ce cur pc nv sn) as [[[ct n1] s1]|] eqn:Ec; [|discriminate]. inversion Hc; subst cq nv' sn'. clear Hc.
+  cbn [Den.den]. eapply (postfix_std t (fun w => of_sum (n_index nt w k))); eauto.
+  intros; apply G_index; auto. split; auto.
+Qed.
+
+(* an Impl run as a body of a composition, with the standard invariant Jstd /\ Jg *)
+Lemma std_body : forall q, Impl q -> forall sc cur base, (forall k, index_of sc (cur, k) = Some (base + k)) ->
+  forall ceq pcq nvq sn cq nvq' sn', comp q ceq cur pcq nvq sn = Some (cq, nvq', sn') -> code_at pcq cq ->
+  forall pc' st fk lo hi o ko K ce n0 t (ownb0 : nat -> Prop) ceb fk' o' x rhoq rho lim
+         (P : list sv -> nat -> gx -> Prop) (Jg : list sv -> Prop) v' vs' n',
+    pc' = pcq + length cq -> ce_lbls ceb = ce_lbls ceq ->
+    (forall i, base + nvq <= i < base + nvq' -> ownb0 i /\ K i) -> (forall i, kept sc ceq i -> K i) -> (forall i, kept sc ce i -> K i) ->
+    envOK sc ceq rhoq vs' n0 (base + nvq) -> base + nvq' <= ko -> ko <= o -> lo <= base + nvq -> base + nvq' <= hi ->
+    lim <= base + nvq -> lim <= o ->
+    (forall (O : nat -> Prop) x y k h k' h', (forall i, O i -> lo <= i < hi \/ o <= i) -> P x k h -> chg O x y -> cle k h k' h' -> P y k' h') ->
+    (forall cx (o3 : nat) x y k h k' h', g_keep cx = K -> g_koff cx = ko -> o <= o3 -> P x k h -> keepK cx x y -> cle k h k' h' -> P y k' h') ->
+    (forall a b, Jg a -> chg (fun i => base + nvq <= i < base + nvq' \/ o' <= i) a b -> Jg b) ->
+    (forall cx (o3 : nat) a b, g_keep cx = K -> g_koff cx = ko -> Jg a -> keepK cx a b -> Jg b) ->
+    Jstd sc ce rho n0 lim o P vs' n' x -> Jg vs' -> o <= o' <= length vs' -> t <= ctr x ->
+    let cb := cbody (ctx_of sc pc' st fk lo hi o ko K ce n0 t) ownb0 ceb fk' o' (ctr x) in
+    G cb (fst (den q rhoq v')) (Tend cb (snd (den q rhoq v')) (fun a m y => Jstd sc ce rho n0 lim o P a m y /\ Jg a))
+      (N sc pcq (SV v' :: st) (fk' ++ fk) vs' n' o' x).
+Proof.
+  intros q IH sc cur base Hcur ceq pcq nvq sn cq nvq' sn' Ec Hat pc' st fk lo hi o ko K ce n0 t ownb0 ceb fk' o' x rhoq rho lim P Jg v' vs' n'
+         Hpc Hlb Hown HKq HK2 HEq Hko Hoo Hlo Hhi Hlim Hlimo S1' S2' Jg1 Jg2 Hj Hg Ho' Ht cb.
+  pose proof Hj as (E' & Hn' & Hl' & Hp').
+  apply (impl_body q IH sc cur base Hcur ceq pcq nvq sn cq nvq' sn' Ec Hat cb rhoq v' vs' n' o' x
+           (fun a m y => Jstd sc ce rho n0 lim o P a m y /\ Jg a)); subst cb; simpl; auto; try lia.
+  - intros i [Hi|Hi]; [left; apply Hown; auto|right; auto].
+  - intros i Hi. apply Hown; auto.
+  - intros a b m y m' y' [Hja Hga] C Hm. split; [|eapply Jg1; eauto].
+    eapply (Jstd_chg' _ _ _ _ _ _ lo hi); [exact S1'| |exact Hja|exact C|exact Hm]. simpl; intros; lia.
+  - intros o3 a b m y m' y' Ho3 [Hja Hga] C Hm. split.
+    + refine (Jstd_stable_cx _ _ _ _ _ _ _ _ _ _ _ K S1' S2' HK2 _ _ o3 _ _ _ _ _ _ _ Hja C Hm); [reflexivity|reflexivity|lia].
+    + refine (Jg2 _ o3 a b _ _ Hga C); reflexivity.
+Qed.
+
+Lemma is_const1_some : forall l x, is_const1 l = Some x -> l = [Iconst x].
+Proof. intros l y H. destruct l as [|[] [|]]; simpl in H; try discriminate. inversion H; auto. Qed.
+
+Definition if_pre (cc : list instr) : list instr :=
+  match cc with [] => [Idup] | _ => Idup :: Iexpbegin :: cc ++ [Iexpend] end.
+
+(* the condition of an if: dup (or nop, when the results are constants), expbegin, c, expend *)
+Lemma if_cond : forall c, Impl c -> forall sc cur base, (forall k, index_of sc (cur, k) = Some (base + k)) ->
+  forall ce pc nv sn cc n1 s1, comp c ce cur (pc + 2) nv sn = Some (cc, n1, s1) ->
+  forall (i0 : instr), code_at pc (i0 :: tl (if_pre cc)) ->
+  forall rho v st0 st1 fk vs n n0 o g,
+  (forall f vs n o g, step nt code (N sc pc (SV v :: st0) f vs n o g) = Next (N sc (S pc) (SV v :: st1) f vs n o g)) ->
+  envOK sc ce rho vs n0 (base + nv) -> n0 <= n -> base + n1 <= o -> o <= length vs ->
+  let c1 := ctx_of sc (pc + length (if_pre cc)) st1 fk (base + nv) (base + n1) o o (fun i => base + nv <= i < base + n1 \/ kept sc ce i) ce n0 (ctr g) in
+  G c1 (fst (den c rho v)) (Tend c1 (snd (den c rho v)) (fun _ _ _ => True)) (N sc pc (SV v :: st0) fk vs n o g).
+Proof.
+  intros c IHc sc cur base Hcur ce pc nv sn cc n1 s1 Ec i0 Hat rho v st0 st1 fk vs n n0 o g Hstep HE Hn Ho Hl c1.
+  destruct cc as [|i cc'].
+  - destruct (comp_nil _ _ _ _ _ _ _ _ Ec) as (E1 & -> & ->). rewrite (emptycode_den nt _ E1). cbn [fst snd].
+    subst c1. simpl length. replace (pc + 1) with (S pc) by lia.
+    eapply G_single; [eapply steps_step; [apply Hstep|apply steps_refl]|apply chg_refl|cl|simpl; lia|auto].
+  - unfold if_pre in Hat, c1. simpl tl in Hat.
+    uncons Hat A0. uncons Hat A1. change (i :: cc' ++ [Iexpend]) with ((i :: cc') ++ [Iexpend]) in Hat.
+    remember (i :: cc') as cc eqn:Ecc.
+    destruct (code_at_app _ _ _ _ Hat) as [Hatc Hat2]. uncons Hat2 A2.
+    replace (S (S pc)) with (pc + 2) in * by lia.
+    eapply G_pre; [eapply steps_step; [apply Hstep|one st_expbegin; apply steps_refl]|apply chg_refl|cl|].
+    replace (S (S pc)) with (pc + 2) by lia.
+    pose proof (impl_inner c IHc sc cur base Hcur ce (pc + 2) nv sn cc n1 s1 Ec Hatc rho v st1 fk vs n n0 o g HE Hn Ho Hl) as HA. cbv zeta in HA.
+    subst c1. replace (pc + length (Idup :: Iexpbegin :: cc ++ [Iexpend])) with (S (pc + 2 + length cc)).
+    2:{ simpl. rewrite app_length. simpl. lia. }
+    eapply G_exit; [|exact HA]. intros w f vs' n' o' g'. one st_expend. apply steps_refl.
+Qed.
+
+Lemma comp_if_inv : forall c a b ce cur pc nv sn cq nv' sn', comp (QIf c a b) ce cur pc nv sn = Some (cq, nv', sn') ->
+  exists cc n1 s1 ca n2 s2 cb,
+    let pcc := pc + length (if_pre cc) in
+    let e := pcc + 1 + length ca + 1 in
+    comp c ce cur (pc + 2) nv sn = Some (cc, n1, s1) /\ comp a ce cur (S pcc) n1 s1 = Some (ca, n2, s2) /\
+    comp b ce cur e n2 s2 = Some (cb, nv', sn') /\
+    ((exists x y, ca = [Iconst x] /\ cb = [Iconst y] /\
+        cq = Inop :: tl (if_pre cc) ++ [Ijumpifnot e; Ipush x; Ijump (e + 1); Ipush y]) \/
+     cq = if_pre cc ++ Ijumpifnot e :: ca ++ Ijump (e + length cb) :: cb).
+Proof.
+  intros c a b ce cur pc nv sn cq nv' sn' Hc. simpl in Hc.
+  destruct (comp c ce cur (pc + 2) nv sn) as [[[cc n1] s1]|] eqn:Ec; [|discriminate].
+  change (match cc with [] => [Idup] | _ :: _ => Idup :: Iexpbegin :: cc ++ [Iexpend] end) with (if_pre cc) in Hc.
+  destruct (comp a ce cur (S (pc + length (if_pre cc))) n1 s1) as [[[ca n2] s2]|] eqn:Ea; [|discriminate].
+  destruct (comp b ce cur (pc + length (if_pre cc) + 1 + length ca + 1) n2 s2) as [[[cb n3] s3]|] eqn:Eb; [|discriminate].
+  exists cc, n1, s1, ca, n2, s2, cb. cbv zeta.
+  destruct (is_const1 ca) as [x|] eqn:E1; [destruct (is_const1 cb) as [y|] eqn:E2|]; inversion Hc; subst; clear Hc;
+    (split; [reflexivity|]); (split; [exact Ea|]); (split; [exact Eb|]); auto.
+  left. exists x, y. rewrite (is_const1_some _ _ E1), (is_const1_some _ _ E2) in *. auto.
+Qed.
+
+Lemma if_pre_cons : forall cc, if_pre cc = Idup :: tl (if_pre cc).
+Proof. destruct cc; reflexivity. Qed.
+
+Lemma impl_if : forall qc qa qb, Impl qc -> Impl qa -> Impl qb -> Impl (QIf qc qa qb).
+Proof.
+  intros qc qa qb IHc IHa IHb. impl_intro.
+  destruct (comp_if_inv _ _ _ _ _ _ _ _ _ _ _ Hc) as (cc & n1 & s1 & ca & n2 & s2 & cb & Ec & Ea & Eb & Hcq). cbv zeta in *. clear Hc.
+  set (pcc := pc + length (if_pre cc)) in *. set (e := pcc + 1 + length ca + 1) in *.
+  destruct (comp_mono _ _ _ _ _ _ _ _ _ Ec) as [M1 _]. destruct (comp_mono _ _ _ _ _ _ _ _ _ Ea) as [M2 _].
+  destruct (comp_mono _ _ _ _ _ _ _ _ _ Eb) as [M3 _].
+  std_facts. pose proof (conj S1 S2) as HS. destruct (stable_sub _ _ _ _ _ _ _ _ _ _ _ _ _ HS) as [S1' S2'].
+  assert (HJ0 : Jstd sc ce rho n0 (base + nv) o P vs n g) by (split; auto).
+  cbn [Den.den].
+  destruct Hcq as [(x & y & -> & -> & ->)| ->].
+  - (* constant results: nop ... jumpifnot; push x; jump; push y *)
+    change (Inop :: tl (if_pre cc) ++ [Ijumpifnot e; Ipush x; Ijump (e + 1); Ipush y])
+      with ((Inop :: tl (if_pre cc)) ++ [Ijumpifnot e; Ipush x; Ijump (e + 1); Ipush y]) in *.
+    destruct (code_at_app _ _ _ _ Hat) as [Hpre Hat2].
+    assert (Elen : pc + length (Inop :: tl (if_pre cc)) = pcc).
+    { unfold pcc. rewrite (if_pre_cons cc) at 2. reflexivity. }
+    rewrite Elen in Hat2. uncons Hat2 Aj. uncons Hat2 Ax. uncons Hat2 Ajmp. uncons Hat2 Ay.
+    assert (Epc : pc + length ((Inop :: tl (if_pre cc)) ++ [Ijumpifnot e; Ipush x; Ijump (e + 1); Ipush y]) = e + 1).
+    { rewrite app_length, Nat.add_assoc, Elen. unfold e. simpl. lia. }
+    assert (Ee : e = S (S (S pcc))) by (unfold e; simpl; lia).
+    subst c. rewrite Epc in *.
+    pose proof (if_cond qc IHc sc cur base Hcur ce pc nv sn cc n1 s1 Ec Inop Hpre rho v st st fk vs n n0 o g) as HA. cbv zeta in HA.
+    assert (A0 : at_ pc Inop) by (destruct (code_at_cons _ _ _ _ Hpre); auto).
+    specialize (HA (fun f vs n o g => st_nop nt code sc pc _ f vs n o g A0) HE Hn ltac:(lia) Hlen). fold pcc in HA.
+    rewrite (comp_const1 nt _ _ _ _ _ _ _ _ _ Ea), (comp_const1 nt _ _ _ _ _ _ _ _ _ Eb).
+    eapply G_impl; [|refine (bind_std (fun w => if truthy w then ([x], None) else ([y], None)) (fun _ => True)
+              sc pcc st (base + nv) (base + n1) (e + 1) st fk (base + nv) (base + nv') o ko K ce n0 (ctr g) rho (base + nv) P
+              (fun _ => False) ce HS (le_n _) ltac:(lia) Hko Hoo (le_n _) ltac:(lia) Hkl HK1 HK2 _ eq_refl _ _ _ _ HA _ (le_n _))].
+    + intros s0. apply Tend_weaken. intros p m z [Hp _]. exact Hp.
+    + intros i [].
+    + auto.
+    + intros w fk' vs' n' o' z Hj Ho' Ht' Hfk.
+      eapply G_pre; [one st_jumpifnot; apply steps_refl|apply chg_refl|cl|].
+      assert (HK : forall vs2 n2' g2, keepK (cbody (ctx_of sc (e + 1) st fk (base + nv) (base + nv') o ko K ce n0 (ctr g)) (fun _ => False) ce fk' o' (ctr z)) vs' vs2 ->
+                    cle n' z n2' g2 -> Jstd sc ce rho n0 (base + nv) o P vs2 n2' g2 /\ True).
+      { intros vs2 n2' g2 Kp L2. destruct Hj as [Hj _]. split; auto.
+        refine (Jstd_stable_cx _ _ _ _ _ _ _ _ _ _ _ K S1' S2' HK2 _ _ o' _ _ _ _ _ _ _ Hj Kp L2); [reflexivity|reflexivity|lia]. }
+      destruct (truthy w); cbn [fst snd].
+      * eapply G_single; [simpl g_pc; simpl g_st; simpl g_base; simpl g_sc; one st_push; one st_jump; apply steps_refl
+                         |apply chg_refl|cl|simpl; lia|exact HK].
+      * eapply G_single; [simpl g_pc; simpl g_st; simpl g_base; simpl g_sc; rewrite Ee in *; one st_push;
+                          replace (S (S (S (S pcc)))) with (S (S (S pcc)) + 1) by lia; apply steps_refl
+                         |apply chg_refl|cl|simpl; lia|exact HK].
+    + split; auto.
+  - (* general *)
+    destruct (code_at_app _ _ _ _ Hat) as [Hpre Hat2]. fold pcc in Hat2.
+    uncons Hat2 Aj. destruct (code_at_app _ _ _ _ Hat2) as [Hata Hat3]. uncons Hat3 Ajmp.
+    replace (S (S pcc + length ca)) with e in Hat3 by (unfold e; lia). rename Hat3 into Hatb.
+    assert (Epc : pc + length (if_pre cc ++ Ijumpifnot e :: ca ++ Ijump (e + length cb) :: cb) = e + length cb).
+    { rewrite app_length. simpl. rewrite app_length. simpl. unfold e, pcc. lia. }
+    subst c. rewrite Epc in *.
+    rewrite (if_pre_cons cc) in Hpre.
+    pose proof (if_cond qc IHc sc cur base Hcur ce pc nv sn cc n1 s1 Ec Idup Hpre rho v st (SV v :: st) fk vs n n0 o g) as HA. cbv zeta in HA.
+    assert (A0 : at_ pc Idup) by (destruct (code_at_cons _ _ _ _ Hpre); auto).
+    specialize (HA (fun f vs n o g => st_dup nt code sc pc _ _ f vs n o g A0) HE Hn ltac:(lia) Hlen). fold pcc in HA.
+    eapply G_impl; [|refine (bind_std (fun w => if truthy w then den qa rho v else den qb rho v) (fun _ => True)
+              sc pcc (SV v :: st) (base + nv) (base + n1) (e + length cb) st fk (base + nv) (base + nv') o ko K ce n0 (ctr g) rho (base + nv) P
+              (fun i => base + n1 <= i < base + nv') ce
+              HS (le_n _) ltac:(lia) Hko Hoo (le_n _) ltac:(lia) Hkl HK1 HK2 _ eq_refl _ _ _ _ HA _ (le_n _))].
+    + intros s0. apply Tend_weaken. intros p m z [Hp _]. exact Hp.
+    + intros i Hi. lia.
+    + auto.
+    + intros w fk' vs' n' o' z [Hj _] Ho' Ht' Hfk. pose proof Hj as (E' & Hn' & Hl' & Hp').
+      eapply G_pre; [one st_jumpifnot; apply steps_refl|apply chg_refl|cl|].
+      destruct (truthy w).
+      * (* then-branch, followed by the jump over the else-branch *)
+        pose proof (std_body qa IHa sc cur base Hcur ce (S pcc) n1 s1 ca n2 s2 Ea Hata (S pcc + length ca) st fk (base + nv) (base + nv') o ko K ce n0 (ctr g)
+                      (fun i => base + n1 <= i < base + nv') ce fk' o' z rho rho (base + nv) P (fun _ => True) v vs' n' eq_refl eq_refl) as HB.
+        cbv zeta in HB.
+        eapply G_impl; [|eapply (G_exit nt code sc (S pcc + length ca) (e + length cb)); [|apply HB; auto; try lia]].
+        -- intros s0. apply Tend_sub; auto.
+        -- intros w' f vs2 n2' o2 g2. one st_jump. apply steps_refl.
+        -- intros i Hi. split; [lia|apply HK1; lia].
+        -- eapply envOK_lim; eauto. lia.
+      * pose proof (std_body qb IHb sc cur base Hcur ce e n2 s2 cb nv' sn' Eb Hatb (e + length cb) st fk (base + nv) (base + nv') o ko K ce n0 (ctr g)
+                      (fun i => base + n1 <= i < base + nv') ce fk' o' z rho rho (base + nv) P (fun _ => True) v vs' n' eq_refl eq_refl) as HB.
+        cbv zeta in HB. apply HB; auto; try lia.
+        -- intros i Hi. split; [lia|apply HK1; lia].
+        -- eapply envOK_lim; eauto. lia.
+    + split; auto.
+Qed.
+
+Lemma Jstd_update : forall sc ce rho n0 lim o lo hi (P : list sv -> nat -> gx -> Prop) vs n g k x vs',
+  (forall (O : nat -> Prop) x y k h k' h', (forall i, O i -> lo <= i < hi \/ o <= i) -> P x k h -> chg O x y -> cle k h k' h' -> P y k' h') ->
+  Jstd sc ce rho n0 lim o P vs n g -> update vs k x = Some vs' -> lo <= k < hi -> lim <= k -> Jstd sc ce rho n0 lim o P vs' n g.
+Proof.
+  intros sc ce rho n0 lim o lo hi P vs n g k x vs' S1' Hj U Hk Hl.
+  assert (C : chg (fun i => i = k) vs vs') by (eapply chg_update; eauto).
+  eapply (Jstd_chg' _ _ _ _ _ _ lo hi); [exact S1'| |exact Hj|exact C|apply cle_refl]. simpl; intros; lia.
+Qed.
+
+Definition bind_pre (cs : list instr) (x : var) : list instr :=
+  match cs with
+  | [] => [Idup; Inop; Istore x]
+  | _ => Idup :: Iexpbegin :: cs ++ [Istore x; Iexpend]
+  end.
+
+Lemma comp_bind_inv : forall qs x qb ce cur pc nv sn cq nv' sn', comp (QBind qs x qb) ce cur pc nv sn = Some (cq, nv', sn') ->
+  exists cs n1 s1 cb, comp qs ce cur (pc + 2) nv sn = Some (cs, n1, s1) /\
+    comp qb (add_var ce x (cur, n1)) cur (pc + length (bind_pre cs (cur, n1))) (S n1) s1 = Some (cb, nv', sn') /\
+    cq = bind_pre cs (cur, n1) ++ cb.
+Proof.
+  intros qs x qb ce cur pc nv sn cq nv' sn' Hc. simpl in Hc.
+  destruct (comp qs ce cur (pc + 2) nv sn) as [[[cs n1] s1]|] eqn:Es; [|discriminate].
+  change (match cs with [] => [Idup; Inop; Istore (cur, n1)] | _ :: _ => Idup :: Iexpbegin :: cs ++ [Istore (cur, n1); Iexpend] end)
+    with (bind_pre cs (cur, n1)) in Hc.
+  destruct (comp qb (add_var ce x (cur, n1)) cur (pc + length (bind_pre cs (cur, n1))) (S n1) s1) as [[[cb n2] s2]|] eqn:Eb; [|discriminate].
+  inversion Hc; subst. eauto 8.
+Qed.
+
+(* the body of a binding construct: the value w was stored in the fresh slot k of the current frame *)
+Lemma bound_body : forall q, Impl q -> forall sc cur base, (forall k, index_of sc (cur, k) = Some (base + k)) ->
+  forall ce x k pcq sn cq nvq' sn', comp q (add_var ce x (cur, k)) cur pcq (S k) sn = Some (cq, nvq', sn') -> code_at pcq cq ->
+  forall pc' st fk lo hi o ko K n0 t (ownb0 : nat -> Prop) fk' o' z rho lim
+         (P : list sv -> nat -> gx -> Prop) w u vs' n',
+    pc' = pcq + length cq ->
+    (forall i, base + k <= i < base + nvq' -> ownb0 i /\ K i) -> (forall i, kept sc ce i -> K i) ->
+    base + nvq' <= ko -> ko <= o -> lo <= base + k -> base + nvq' <= hi -> lim <= base + k -> lim <= o ->
+    (forall (O : nat -> Prop) x y k h k' h', (forall i, O i -> lo <= i < hi \/ o <= i) -> P x k h -> chg O x y -> cle k h k' h' -> P y k' h') ->
+    (forall cx (o3 : nat) x y k h k' h', g_keep cx = K -> g_koff cx = ko -> o <= o3 -> P x k h -> keepK cx x y -> cle k h k' h' -> P y k' h') ->
+    Jstd sc ce rho n0 lim o P vs' n' z -> nth_error vs' (base + k) = Some (SV w) -> o <= o' <= length vs' -> t <= ctr z ->
+    let cb := cbody (ctx_of sc pc' st fk lo hi o ko K ce n0 t) ownb0 ce fk' o' (ctr z) in
+    G cb (fst (den q ((x, w) :: rho) u)) (Tend cb (snd (den q ((x, w) :: rho) u)) (fun a m y => Jstd sc ce rho n0 lim o P a m y /\ True))
+      (N sc pcq (SV u :: st) (fk' ++ fk) vs' n' o' z).
+Proof.
+  intros q IH sc cur base Hcur ce x k pcq sn cq nvq' sn' Ec Hat pc' st fk lo hi o ko K n0 t ownb0 fk' o' z rho lim P w u vs' n'
+         Hpc Hown HK2 Hko Hoo Hlo Hhi Hlim Hlimo S1' S2' Hj Hnth Ho' Ht cb.
+  destruct (comp_mono _ _ _ _ _ _ _ _ _ Ec) as [M _]. pose proof Hj as (E & Hn & Hl & Hp).
+  subst cb.
+  apply (std_body q IH sc cur base Hcur (add_var ce x (cur, k)) pcq (S k) sn cq nvq' sn' Ec Hat pc' st fk lo hi o ko K ce n0 t ownb0 ce fk' o' z
+           ((x, w) :: rho) rho lim P (fun _ => True) u vs' n' Hpc eq_refl); auto; try lia.
+  - intros i Hi. apply Hown. lia.
+  - intros i Hi. destruct (kept_add_var _ _ _ _ _ _ (Hcur k) Hi) as [->|Hi']; [apply Hown; lia|auto].
+  - eapply envOK_add_var; [eapply envOK_lim; [exact E|lia]|apply Hcur|lia|exact Hnth].
+Qed.
+
+Lemma impl_bind : forall qs x qb, Impl qs -> Impl qb -> Impl (QBind qs x qb).
+Proof.
+  intros qs x qb IHs IHb. impl_intro.
+  destruct (comp_bind_inv _ _ _ _ _ _ _ _ _ _ _ Hc) as (cs & n1 & s1 & cb & Es & Eb & ->). clear Hc.
+  destruct (comp_mono _ _ _ _ _ _ _ _ _ Es) as [M1 _]. destruct (comp_mono _ _ _ _ _ _ _ _ _ Eb) as [M2 _].
+  std_facts. pose proof (conj S1 S2) as HS. destruct (stable_sub _ _ _ _ _ _ _ _ _ _ _ _ _ HS) as [S1' S2'].
+  assert (HJ0 : Jstd sc ce rho n0 (base + nv) o P vs n g) by (split; auto).
+  cbn [Den.den].
+  destruct (code_at_app _ _ _ _ Hat) as [Hpre Hatb].
+  subst c. rewrite app_length, Nat.add_assoc in *.
+  set (pcb := pc + length (bind_pre cs (cur, n1))) in *.
+  destruct cs as [|i0 cs'].
+  - (* the source emits no code: dup; nop; store x *)
+    destruct (comp_nil _ _ _ _ _ _ _ _ Es) as (E1 & -> & ->). unfold bind_pre in Hpre. simpl in pcb.
+    uncons Hpre A0. uncons Hpre A1. uncons Hpre A2.
+    rewrite (emptycode_den nt _ E1).
+    eapply G_impl; [|refine (bind_std (fun w => den qb ((x, w) :: rho) v) (fun _ => True) sc (S (S pc)) (SV v :: st) (base + nv) (base + nv)
+              (pcb + length cb) st fk (base + nv) (base + nv') o ko K ce n0 (ctr g) rho (base + nv) P
+              (fun i => base + nv <= i < base + nv') ce HS (le_n _) ltac:(lia) Hko Hoo (le_n _) ltac:(lia) Hkl HK1 HK2 _ eq_refl _ _ ([v], None)
+              (N sc pc (SV v :: st) fk vs n o g) _ _ (le_n _))].
+    + intros s0. apply Tend_weaken. intros p m z [Hp _]. exact Hp.
+    + intros i Hi. lia.
+    + auto.
+    + intros w fk' vs' n' o' z [Hj _] Ho' Ht' Hfk. pose proof Hj as (E' & Hn' & Hl' & Hp').
+      destruct (update_some vs' (base + nv) (SV w)) as [vs'' U]; [lia|].
+      destruct (update_spec _ _ _ _ U) as (UL & UN & UO).
+      eapply G_pre; [one st_store; apply steps_refl|eapply chg_update; [exact U|simpl; lia]|cl|].
+      replace (S (S (S pc))) with pcb by (unfold pcb; lia).
+      apply (bound_body qb IHb sc cur base Hcur ce x nv pcb sn cb nv' sn' Eb Hatb (pcb + length cb) st fk (base + nv) (base + nv') o ko K n0 (ctr g)
+               (fun i => base + nv <= i < base + nv') fk' o' z rho (base + nv) P w v vs'' n'); auto; try lia.
+      all: try (intros i Hi; split; [lia|apply HK1; lia]).
+      all: try (eapply Jstd_update; eauto; lia).
+    + cbn [fst snd]. eapply G_single; [one st_dup; one st_nop; apply steps_refl|apply chg_refl|cl|simpl; lia|auto].
+    + split; auto.
+  - (* dup; expbegin; source; store x; expend *)
+    remember (i0 :: cs') as cs eqn:Ecs.
+    assert (Epre : bind_pre cs (cur, n1) = Idup :: Iexpbegin :: cs ++ [Istore (cur, n1); Iexpend]) by (subst cs; reflexivity).
+    rewrite Epre in Hpre. uncons Hpre A0. uncons Hpre A1.
+    destruct (code_at_app _ _ _ _ Hpre) as [Hats Hpre2]. uncons Hpre2 A2. uncons Hpre2 A3.
+    replace (S (S pc)) with (pc + 2) in * by lia.
+    assert (Epcb : pcb = S (S (pc + 2 + length cs))).
+    { unfold pcb. rewrite Epre. simpl. rewrite app_length. simpl. lia. }
+    pose proof (impl_inner qs IHs sc cur base Hcur ce (pc + 2) nv sn cs n1 s1 Es Hats rho v (SV v :: st) fk vs n n0 o g HE Hn ltac:(lia) Hlen) as HA.
+    cbv zeta in HA.
+    eapply G_impl; [|refine (bind_std (fun w => den qb ((x, w) :: rho) v) (fun _ => True) sc (pc + 2 + length cs) (SV v :: st) (base + nv) (base + n1)
+              (pcb + length cb) st fk (base + nv) (base + nv') o ko K ce n0 (ctr g) rho (base + nv) P
+              (fun i => base + n1 <= i < base + nv') ce HS (le_n _) ltac:(lia) Hko Hoo (le_n _) ltac:(lia) Hkl HK1 HK2 _ eq_refl _ _ (den qs rho v)
+              (N sc pc (SV v :: st) fk vs n o g) _ _ (le_n _))].
+    + intros s0. apply Tend_weaken. intros p m z [Hp _]. exact Hp.
+    + intros i Hi. lia.
+    + auto.
+    + intros w fk' vs' n' o' z [Hj _] Ho' Ht' Hfk. pose proof Hj as (E' & Hn' & Hl' & Hp').
+      destruct (update_some vs' (base + n1) (SV w)) as [vs'' U]; [lia|].
+      destruct (update_spec _ _ _ _ U) as (UL & UN & UO).
+      eapply G_pre; [one st_store; one st_expend; apply steps_refl|eapply chg_update; [exact U|simpl; lia]|cl|].
+      rewrite <- Epcb.
+      apply (bound_body qb IHb sc cur base Hcur ce x n1 pcb s1 cb nv' sn' Eb Hatb (pcb + length cb) st fk (base + nv) (base + nv') o ko K n0 (ctr g)
+               (fun i => base + n1 <= i < base + nv') fk' o' z rho (base + nv) P w v vs'' n'); auto; try lia.
+      all: try (intros i Hi; split; [lia|apply HK1; lia]).
+      all: try (eapply Jstd_update; eauto; lia).
+    + eapply G_pre; [one st_dup; one st_expbegin; apply steps_refl|apply chg_refl|cl|].
+      replace (S (S pc)) with (pc + 2) by lia. exact HA.
+    + split; auto.
+Qed.
+
+Lemma impl_label : forall l qb, Impl qb -> Impl (QLabel l qb).
+Proof.
+  intros l qb IHb. impl_intro. simpl in Hc.
+  destruct (comp qb (add_lbl ce l (cur, nv)) cur (S pc) (S nv) sn) as [[[cb n1] s1]|] eqn:Ec; [|discriminate].
+  inversion Hc; subst cq nv' sn'. clear Hc. rename n1 into nv'.
+  destruct (comp_mono _ _ _ _ _ _ _ _ _ Ec) as [M1 _]. uncons Hat A0.
+  std_facts. pose proof (conj S1 S2) as HS. destruct (stable_sub _ _ _ _ _ _ _ _ _ _ _ _ _ HS) as [S1' S2'].
+  assert (HJ0 : Jstd sc ce rho n0 (base + nv) o P vs n g) by (split; auto).
+  assert (Epc : pc + length (Iforklabel (cur, nv) :: cb) = S pc + length cb) by (simpl; lia).
+  subst c. rewrite Epc in *.
+  set (c := ctx_of sc (S pc + length cb) st fk (base + nv) (base + nv') o ko K ce n0 (ctr g)).
+  destruct (update_some vs (base + nv) (SLbl n)) as [vs1 U]; [lia|].
+  destruct (update_spec _ _ _ _ U) as (UL & UN & UO).
+  set (fx := F sc pc (SLbl n :: SV v :: st) o (ctr g)).
+  set (ceb := add_lbl ce l (cur, nv)).
+  set (cx := {| g_sc := sc; g_pc := S pc + length cb; g_st := st; g_base := fx :: fk;
+                g_own := fun i => base + S nv <= i < base + nv' \/ o <= i;
+                g_keep := K; g_ce := ceb; g_n0 := S n; g_off := o; g_koff := ko; g_ctr := ctr g |}).
+  set (Pb := fun a m (x : gx) => Jstd sc ce rho n0 (base + nv) o P a m x /\ nth_error a (base + nv) = Some (SLbl n)).
+  assert (HJ1 : Jstd sc ce rho n0 (base + nv) o P vs1 n g) by (eapply Jstd_update; eauto; lia).
+  assert (HB : G cx (fst (den qb rho v)) (Tend cx (snd (den qb rho v)) Pb) (N sc (S pc) (SV v :: st) (fx :: fk) vs1 (S n) o g)).
+  { apply (impl_body qb IHb sc cur base Hcur ceb (S pc) (S nv) sn cb nv' s1 Ec Hat cx rho v vs1 (S n) o g Pb); simpl; auto; try lia.
+    - intros; apply HK1; lia.
+    - intros i Hi. destruct (kept_add_lbl _ _ _ _ _ _ (Hcur nv) Hi) as [->|Hi']; [apply HK1; lia|auto].
+    - destruct HJ1 as (E1 & _). apply envOK_add_lbl with (a := base + nv) (id := n); auto; try lia.
+      apply envOK_n0 with (n0 := n0); [|lia]. eapply envOK_lim; eauto. lia.
+    - intros p q m x m' x' [Hq Hq2] C Hm. split.
+      + eapply (Jstd_chg' _ _ _ _ _ _ (base + nv) (base + nv')); [exact S1'| |exact Hq|exact C|exact Hm]. simpl; intros; lia.
+      + rewrite <- Hq2. symmetry. apply C. lia.
+    - intros o3 p q m x m' x' Ho3 [Hq Hq2] C Hm. split.
+      + refine (Jstd_stable_cx cx _ _ _ _ _ _ _ _ _ _ K S1' S2' HK2 _ _ o3 _ _ _ _ _ _ _ Hq C Hm); [reflexivity|reflexivity|lia].
+      + rewrite <- Hq2. symmetry. apply C. simpl. apply HK1. lia.
+    - split; [|exact UN].
+      eapply (Jstd_chg' _ _ _ _ _ _ (base + nv) (base + nv') P (fun _ => False)); [exact S1'| |exact HJ1|apply chg_refl|unfold cle; simpl; lia].
+      intros i []. }
+  eapply G_pre; [one st_forklabel; apply steps_refl|eapply chg_update; [exact U|simpl; lia]|cl|].
+  assert (Htr : forall y vs' n' g', okerr n0 y -> steps (B (Some y) (fx :: fk) vs' n' g') (B (Some y) fk vs' n' g')).
+  { intros y vs' n' g' Hy. one st_popfork. one bt_label.
+    destruct y as [[| |m]|]; simpl; try apply steps_refl.
+    simpl in Hy. destruct (Nat.eqb_spec m n); [lia|apply steps_refl]. }
+  cbn [Den.den]. destruct (den qb rho v) as [ws fin]. cbn [fst snd] in HB.
+  match goal with |- G _ (fst ?r) _ _ => assert (Hf : fst r = ws)
+    by (destruct fin as [[e0|l']|]; [|destruct (N.eqb l l')|]; reflexivity); rewrite Hf end.
+  assert (Hfx : Forall (fun f => g_ctr c <= f_ctr f) [fx]) by (constructor; [simpl; lia|constructor]).
+  refine (G_ctx nt code cx c [fx] (fun _ _ _ => True) _ _ eq_refl eq_refl eq_refl eq_refl _ _ _ _ (le_n _) (le_n _) Hfx _ _ _ _ _ _ I HB); auto.
+  - simpl; intros; lia.
+  - simpl; lia.
+  - intros y vs' n' g' _ Hy. exists vs', n', g'. split; [apply Htr; auto|]. split; [apply chg_refl|cl].
+  - intros z1 _ (e & vs4 & n4 & g4 & St4 & Ch4 & Le4 & HE4 & ((E4 & Hn4 & Hl4 & HP4) & Hlab)). simpl in St4, Ch4. cbn [g_sc g_ce cx] in HE4.
+    assert (Ch4' : chg (g_own c) (vars_of z1) vs4) by (eapply chg_mono; [|exact Ch4]; simpl; intros; lia).
+    destruct fin as [[e0|l']|]; cbn [fst snd] in *; simpl in HE4.
+    + (* error *) subst e. exists (Some (VE (err_of e0))), vs4, n4, g4.
+      split; [eapply steps_trans; [exact St4|apply Htr; destruct e0; simpl; auto]|]. split; [exact Ch4'|]. split; [exact Le4|]. split; [reflexivity|exact HP4].
+    + (* break *) destruct HE4 as (y & k & id & Hk & Hik & Hid & ->). simpl in Hk. rewrite N.eqb_sym in Hk.
+      destruct (N.eqb l l') eqn:El; cbn [snd].
+      * inversion Hk; subst y. rewrite Hcur in Hik. inversion Hik; subst k. rewrite Hlab in Hid. inversion Hid; subst id.
+        exists None, vs4, n4, g4. split; [|split; [exact Ch4'|split; [exact Le4|split; [reflexivity|exact HP4]]]].
+        eapply steps_trans; [exact St4|]. one st_popfork. eapply steps_step; [eapply bt_label; eauto|]. cbv beta iota. rewrite Nat.eqb_refl. apply steps_refl.
+      * destruct E4 as [_ El4]. destruct (El4 _ _ Hk) as (a' & id' & Hia & _ & Hid' & Hlt). rewrite Hik in Hia. inversion Hia; subst a'.
+        rewrite Hid in Hid'. inversion Hid'; subst id'.
+        exists (Some (VE (EB id))), vs4, n4, g4. split; [eapply steps_trans; [exact St4|apply Htr; simpl; lia]|].
+        split; [exact Ch4'|]. split; [exact Le4|]. split; [|exact HP4]. simpl. exists y, k, id. auto.
+    + (* normal end *) subst e. exists None, vs4, n4, g4.
+      split; [|split; [exact Ch4'|split; [exact Le4|split; [reflexivity|exact HP4]]]].
+      eapply steps_trans; [exact St4|]. one st_popfork. one bt_label. apply steps_refl.
+Qed.
+
+(* the exit of a try body: forktryend pushes a fork per output, then jumps to the end *)
+Lemma G_tryend : forall sc pe pend st fb fk (O K : nat -> Prop) ce n0 o ko t (T T' : state -> Prop),
+  at_ pe Iforktryend -> at_ (S pe) (Ijump pend) ->
+  (forall x vs n g, steps (B (Some (VT x)) (fb :: fk) vs n g) (B (Some x) fk vs n g)) ->
+  t <= f_ctr fb ->
+  (forall s, T s -> T' s) ->
+  forall ws s, t <= ctr (gx_of s) ->
+  G {| g_sc := sc; g_pc := pe; g_st := st; g_base := fb :: fk; g_own := O; g_keep := K; g_ce := ce; g_n0 := n0; g_off := o; g_koff := ko; g_ctr := t |} ws T s ->
+  G {| g_sc := sc; g_pc := pend; g_st := st; g_base := fk; g_own := O; g_keep := K; g_ce := ce; g_n0 := n0; g_off := o; g_koff := ko; g_ctr := t |} ws T' s.
+Proof.
+  intros sc pe pend st fb fk O K ce n0 o ko t T T' A1 A2 Hun Hfb HT. induction ws; intros s Hs HG.
+  - simpl in *. destruct HG as (s' & St & Ch & Le & H). exists s'. auto.
+  - simpl in HG. destruct HG as (fk' & vs3 & n3 & o3 & g3 & St & Ch & Le & [Ho Hfk] & R).
+    assert (Hc3 : t <= ctr g3) by (destruct Le; lia).
+    eapply (G_cons nt code _ a ws _ _ (F sc pe (SV a :: st) o3 (ctr g3) :: fk' ++ [fb]) vs3 n3 o3 g3); simpl.
+    + eapply steps_trans; [exact St|]. one st_forktryend. one st_jump. rewrite <- app_assoc. apply steps_refl.
+    + exact Ch.
+    + exact Le.
+    + exact Ho.
+    + constructor; [simpl; lia|]. apply Forall_app. split; [exact Hfk|constructor; [exact Hfb|constructor]].
+    + intros vs2 n2 g2 Kp L2.
+      assert (Kp' : keepS' {| g_sc := sc; g_pc := pe; g_st := st; g_base := fb :: fk; g_own := O; g_keep := K; g_ce := ce; g_n0 := n0;
+                              g_off := o; g_koff := ko; g_ctr := t |} o3 fk' vs3 vs2).
+      { simpl in Kp. destruct fk'; simpl; [exact (keepS_K _ _ _ _ Kp)|exact Kp]. }
+      destruct (R vs2 n2 g2 Kp' L2) as [R1 R2]. rewrite <- app_assoc. simpl. split.
+      * eapply G_pre; [one st_popfork; one bt_tryend; apply steps_refl|apply chg_refl|cl|].
+        apply IHws; [simpl; destruct L2; lia|exact R1].
+      * intros x Hx. destruct (R2 (VT x) I) as (vs4 & n4 & g4 & St4 & Ch4 & Le4). exists vs4, n4, g4.
+        split; [|auto]. one st_popfork. one bt_tryend. eapply steps_trans; [exact St4|apply Hun].
+Qed.
+
+Lemma impl_try : forall qa h, Impl qa -> Popt Impl h -> Impl (QTry qa h).
+Proof.
+  intros qa h IHa IHh. impl_intro. simpl in Hc.
+  destruct (comp qa ce cur (S pc) nv sn) as [[[ca n1] s1]|] eqn:Ea; [|discriminate].
+  destruct (comp_mono _ _ _ _ _ _ _ _ _ Ea) as [M1 _].
+  std_facts. pose proof (conj S1 S2) as HS. destruct (stable_sub _ _ _ _ _ _ _ _ _ _ _ _ _ HS) as [S1' S2'].
+  set (hp := pc + 1 + length ca + 2) in *.
+  set (fb := F sc pc (SV v :: st) o (ctr g)).
+  assert (Hsh : exists ch, cq = Iforktrybegin hp :: ca ++ Iforktryend :: Ijump (hp + length ch) :: ch /\ n1 <= nv' /\
+            match h with
+            | Some h' => comp h' ce cur hp n1 s1 = Some (ch, nv', sn')
+            | None => ch = [Ibacktrack] /\ nv' = n1
+            end).
+  { destruct h as [h'|].
+    - destruct (comp h' ce cur hp n1 s1) as [[[ch n2] s2]|] eqn:Eh; [|discriminate]. inversion Hc; subst.
+      exists ch. split; [auto|]. split; [exact (proj1 (comp_mono _ _ _ _ _ _ _ _ _ Eh))|auto].
+    - inversion Hc; subst. exists [Ibacktrack]. auto. }
+  destruct Hsh as (ch & -> & M2 & Hh). clear Hc.
+  uncons Hat A0. destruct (code_at_app _ _ _ _ Hat) as [Hata Hat2]. uncons Hat2 A1. uncons Hat2 A2.
+  replace (S (S (S pc + length ca))) with hp in Hat2 by (unfold hp; lia). rename Hat2 into Hath.
+  assert (Epc : pc + length (Iforktrybegin hp :: ca ++ Iforktryend :: Ijump (hp + length ch) :: ch) = hp + length ch).
+  { simpl. rewrite app_length. simpl. unfold hp. lia. }
+  subst c. rewrite Epc in *.
+  set (c := ctx_of sc (hp + length ch) st fk (base + nv) (base + nv') o ko K ce n0 (ctr g)).
+  set (Pa := Jstd sc ce rho n0 (base + nv) o P).
+  set (ca0 := ctx_of sc (S pc + length ca) st (fb :: fk) (base + nv) (base + n1) o ko K ce n0 (ctr g)).
+  assert (HA : G ca0 (fst (den qa rho v)) (Tend ca0 (snd (den qa rho v)) Pa) (N sc (S pc) (SV v :: st) (fb :: fk) vs n o g)).
+  { apply (IHa sc cur base Hcur ce (S pc) nv sn ca n1 s1 Ea Hata rho v st (fb :: fk) vs n n0 o ko g K Pa); auto; try lia.
+    - intros; apply HK1; lia.
+    - eapply Jstd_stable; eauto; lia.
+    - split; auto. }
+  assert (Hun : forall x vs' n' g', steps (B (Some (VT x)) (fb :: fk) vs' n' g') (B (Some x) fk vs' n' g')).
+  { intros. one st_popfork. one bt_trybegin_vt. apply steps_refl. }
+  eapply G_pre; [one st_forktrybegin; apply steps_refl|apply chg_refl|cl|].
+  (* what the try construct does when the body has been exhausted *)
+  set (Tfin := fun z1 : state => ctr g <= ctr (gx_of z1) /\
+     match snd (den qa rho v) with
+     | Some (XErr e0) =>
+         match h with
+         | Some h' => G c (fst (den h' rho (errval e0))) (Tend c (snd (den h' rho (errval e0))) P) z1
+         | None => Tend c None P z1
+         end
+     | fin => Tend c fin P z1
+     end).
+  assert (HT : forall z1, ctr g <= ctr (gx_of z1) /\ Tend ca0 (snd (den qa rho v)) Pa z1 -> Tfin z1).
+  { intros z1 [Hz (e & vs4 & n4 & g4 & St4 & Ch4 & Le4 & HE4 & (E4 & Hn4 & Hl4 & HP4))]. simpl in St4, Ch4. cbn [g_sc g_ce ca0 ctx_of] in HE4.
+    unfold Tfin. split; [exact Hz|].
+    assert (Ch4' : chg (g_own c) (vars_of z1) vs4) by (eapply chg_mono; [|exact Ch4]; simpl; intros; lia).
+    destruct (snd (den qa rho v)) as [[e0|l']|]; simpl in HE4.
+    - subst e. destruct h as [h'|].
+      + eapply G_pre; [eapply steps_trans; [exact St4|one st_popfork; one bt_trybegin_catch; apply steps_refl]|exact Ch4'|exact Le4|].
+        pose proof (IHh sc cur base Hcur ce hp n1 s1 ch nv' sn' Hh Hath rho (errval e0) st fk vs4 n4 n0 o ko g4 K P) as HB. cbv zeta in HB.
+        refine (G_sub nt code (ctx_of sc (hp + length ch) st fk (base + n1) (base + nv') o ko K ce n0 (ctr g4)) c _ _
+                  eq_refl eq_refl eq_refl eq_refl _ _ _ (le_n _) (le_n _) _ _ _ _ (HB _ _ _ _ _ _ _ _ _)); auto; try lia.
+        * simpl; intros; lia.
+        * simpl. destruct Le4; lia.
+        * intros s2'. apply Tend_sub; auto. simpl; intros; lia.
+        * eapply envOK_lim; eauto. lia.
+        * intros; apply HK1; lia.
+        * eapply stable_P_sub; eauto; lia.
+      + destruct Hh as [-> ->]. uncons Hath A3.
+        exists None, vs4, n4, g4. split; [|split; [exact Ch4'|split; [exact Le4|split; [reflexivity|exact HP4]]]].
+        eapply steps_trans; [exact St4|]. one st_popfork. one bt_trybegin_catch. one st_backtrack. apply steps_refl.
+    - destruct HE4 as (y & k & id & Hk & Hik & Hid & ->).
+      exists (Some (VE (EB id))), vs4, n4, g4. split; [|split; [exact Ch4'|split; [exact Le4|split; [|exact HP4]]]].
+      + eapply steps_trans; [exact St4|]. one st_popfork. one bt_trybegin_brk. apply steps_refl.
+      + simpl. exists y, k, id. auto.
+    - subst e. exists None, vs4, n4, g4. split; [|split; [exact Ch4'|split; [exact Le4|split; [reflexivity|exact HP4]]]].
+      eapply steps_trans; [exact St4|]. one st_popfork. one bt_trybegin_none. apply steps_refl. }
+  (* carry the counter bound to the tail *)
+  assert (HA' : G ca0 (fst (den qa rho v)) (fun z1 => ctr g <= ctr (gx_of z1) /\ Tend ca0 (snd (den qa rho v)) Pa z1)
+                  (N sc (S pc) (SV v :: st) (fb :: fk) vs n o g)).
+  { match type of HA with G _ ?w0 _ ?st0 =>
+      refine (G_ctx nt code ca0 ca0 [] (fun _ _ gg => ctr g <= ctr gg) _ _ eq_refl eq_refl eq_refl eq_refl (fun _ H => H) (fun _ _ _ H => H) (fun _ _ H => H)
+                (le_n _) (le_n _) (le_n _) (Forall_nil _) _ _ _ _ w0 st0 (le_n _) HA) end.
+    - intros; unfold cle in *; lia.
+    - intros; unfold cle in *; lia.
+    - intros x vs' n' g' _ _. exists vs', n', g'. split; [apply steps_refl|]. split; [apply chg_refl|cl].
+    - intros z1 Hz Ht. split; auto. }
+  pose proof (G_tryend sc (S pc + length ca) (hp + length ch) st fb fk _ K ce n0 o ko (ctr g) _ Tfin A1 A2 Hun (le_n _) HT (fst (den qa rho v)) (N sc (S pc) (SV v :: st) (fb :: fk) vs n o g) (le_n _) HA') as HG.
+  assert (HG' : G c (fst (den qa rho v)) Tfin (N sc (S pc) (SV v :: st) (fb :: fk) vs n o g)).
+  { refine (G_sub nt code (ctx_of sc (hp + length ch) st fk (base + nv) (base + n1) o ko K ce n0 (ctr g)) c _ _
+              eq_refl eq_refl eq_refl eq_refl _ _ _ (le_n _) (le_n _) (le_n _) (fun s H => H) _ _ HG); auto.
+    simpl; intros; lia. }
+  clear HG HA HA'. cbn [Den.den].
+  assert (HG2 : G c (fst (den qa rho v))
+            (fun z1 => match snd (den qa rho v) with
+                       | Some (XErr e0) => match h with
+                                           | Some h' => G c (fst (den h' rho (errval e0))) (Tend c (snd (den h' rho (errval e0))) P) z1
+                                           | None => Tend c None P z1 end
+                       | fin => Tend c fin P z1 end) (N sc (S pc) (SV v :: st) (fb :: fk) vs n o g)).
+  { eapply G_impl; [|exact HG']. intros z1 [_ H]. exact H. }
+  clear HG'.
+  destruct (den qa rho v) as [ws [[e0|l']|]]; cbn [fst snd] in *; try exact HG2.
+  destruct h as [h'|]; [|exact HG2].
+  destruct (den h' rho (errval e0)) as [wh fh] eqn:Edh. cbn [seq fst snd] in *. apply G_app. exact HG2.
+Qed.
+
+Lemma foldgen_collect : forall ws l0,
+  foldgen (list jv) (fun l w => ([], None, l ++ [w])) ws l0 = ([], None, l0 ++ ws).
+Proof.
+  induction ws; intros l0; simpl. - rewrite app_nil_r. auto.
+  - rewrite IHws. rewrite <- app_assoc. reflexivity.
+Qed.
+
+Lemma impl_array : forall q, Impl q -> Impl (QArray q).
+Proof.
+  intros q IHq. impl_intro. simpl in Hc.
+  destruct (comp q ce cur (pc + 3) (S nv) sn) as [[[cq' n1] s1]|] eqn:Eq; [|discriminate].
+  destruct (comp_mono _ _ _ _ _ _ _ _ _ Eq) as [M1 _].
+  std_facts. pose proof (conj S1 S2) as HS. destruct (stable_sub _ _ _ _ _ _ _ _ _ _ _ _ _ HS) as [S1' S2'].
+  cbn [Den.den].
+  destruct (array_fold q) as [cs|] eqn:Ef.
+  - (* folded to a constant *)
+    inversion Hc; subst cq nv' sn'. clear Hc. uncons Hat A0.
+    assert (Ha : acl q = Some cs) by (destruct q; simpl in Ef; auto; discriminate).
+    rewrite (acl_sound nt _ _ Ha). cbn [fst snd].
+    eapply G_single; [subst c; simpl; replace (pc + 1) with (S pc) by lia; one st_const; apply steps_refl
+                     |apply chg_refl|cl|simpl; lia|].
+    intros; eapply S2; eauto.
+  - inversion Hc; subst cq nv' sn'. clear Hc.
+    uncons Hat A0. uncons Hat A1. uncons Hat A2. replace (S (S (S pc))) with (pc + 3) in Hat by lia.
+    destruct (code_at_app _ _ _ _ Hat) as [Hatq Hat2]. uncons Hat2 A3. uncons Hat2 A4. uncons Hat2 A5. uncons Hat2 A6.
+    set (pa := pc + 3 + length cq') in *.
+    assert (Epc : pc + length (Ipush (VArr []) :: Istore (cur, nv) :: Ifork (pa + 2) :: cq' ++
+                    [Iappend (cur, nv); Ibacktrack; Ipop; Iload (cur, nv)]) = pa + 4).
+    { simpl. rewrite app_length. simpl. unfold pa. lia. }
+    subst c. rewrite Epc in *.
+    set (c := ctx_of sc (pa + 4) st fk (base + nv) (base + n1) o ko K ce n0 (ctr g)).
+    destruct (update_some vs (base + nv) (SV (VArr []))) as [vs1 U]; [lia|].
+    destruct (update_spec _ _ _ _ U) as (UL & UN & UO).
+    set (fx := F sc (S (S pc)) (SV v :: st) o (ctr g)).
+    assert (HJ0 : Jstd sc ce rho n0 (base + nv) o P vs n g) by (split; auto).
+    assert (HJ1 : Jstd sc ce rho n0 (base + nv) o P vs1 n g) by (eapply Jstd_update; eauto; lia).
+    eapply G_pre; [one st_push; one st_store; one st_fork; apply steps_refl
+                  |eapply chg_update; [exact U|simpl; lia]|cl|].
+    replace (S (S (S pc))) with (pc + 3) by lia.
+    destruct HJ1 as (E1 & Hn1 & Hl1 & HP1).
+    pose proof (impl_inner q IHq sc cur base Hcur ce (pc + 3) (S nv) sn cq' n1 s1 Eq Hatq rho v st (fx :: fk) vs1 n n0 o g
+                  ltac:(eapply envOK_lim; eauto; lia) Hn ltac:(lia) Hl1) as HA. cbv zeta in HA. fold pa in HA.
+    set (fb := fun (l : list jv) (w : jv) => (@nil jv, @None exn, l ++ [w])).
+    set (Jg := fun (l : list jv) (a : list sv) => nth_error a (base + nv) = Some (SV (VArr l))).
+    pose proof (fold_std sc pa st (base + S nv) (base + n1) 0 st (fx :: fk) (base + nv) (base + n1) o ko K ce n0 (ctr g) rho (base + nv) P
+                  (list jv) Jg fb (fun i => i = base + nv) ce
+                  HS ltac:(lia) (le_n _) Hko Hoo (le_n _) ltac:(lia) Hkl HK1 HK2) as HF. cbv zeta in HF.
+    destruct (den q rho v) as [ws fin] eqn:Ed. cbn [fst snd] in HA.
+    set (c0 := ctx_of sc 0 st (fx :: fk) (base + nv) (base + n1) o ko K ce n0 (ctr g)).
+    assert (HG : G c0 [] (Tend c0 fin (fun a m x => Jstd sc ce rho n0 (base + nv) o P a m x /\ Jg ws a))
+                   (N sc (pc + 3) (SV v :: st) (fx :: fk) vs1 n o g)).
+    { refine (HF _ eq_refl _ _ ws [] _ fin [] None ws HA _ (le_n _) (foldgen_collect ws [])).
+      - intros i ->. lia.
+      - intros l a b Hg C. unfold Jg in *. rewrite <- Hg. symmetry. apply C. lia.
+      - intros w l fk' vs' n' o' x os' x' g' [Hj Hg] Ho' Ht' Hfk Efb. unfold fb in Efb. inversion Efb; subst os' x' g'.
+        pose proof Hj as (E' & Hn' & Hl' & Hp').
+        destruct (update_some vs' (base + nv) (SV (VArr (l ++ [w])))) as [vs'' U']; [lia|].
+        destruct (update_spec _ _ _ _ U') as (UL' & UN' & UO').
+        eapply G_end; [one st_append; one st_backtrack; apply steps_refl
+                      |eapply chg_update; [exact U'|simpl; auto]|cl|reflexivity|].
+        split; [eapply Jstd_update; eauto; lia|exact UN'].
+      - split; [split; auto|exact UN]. }
+    simpl in HG. destruct HG as (s' & St & Ch & Le & (e & vs4 & n4 & g4 & St4 & Ch4 & Le4 & HE4 & ((E4 & Hn4 & Hl4 & HP4) & Hg4))).
+    simpl in St4, Ch4. cbn [g_sc g_ce c0 ctx_of] in HE4.
+    assert (Ch' : chg (g_own c) vs1 vs4) by (eapply chg_trans; eauto).
+    assert (Le' : cle n g n4 g4) by (eapply cle_trans; eauto).
+    destruct fin as [x|]; simpl in HE4; cbn [fst snd].
+    + destruct (encR_some _ _ _ _ _ HE4) as (y & ->).
+      eapply G_end; [eapply steps_trans; [exact St|eapply steps_trans; [exact St4|eapply fork_transparent; eauto]]
+                    |exact Ch'|exact Le'|exact HE4|exact HP4].
+    + subst e.
+      eapply G_single with (vs3 := vs4) (n3 := n4) (o3 := o) (g3 := g4);
+        [eapply steps_trans; [exact St|eapply steps_trans; [exact St4|]]|exact Ch'|exact Le'|simpl; lia|].
+      * one st_popfork. one bt_fork_none. replace (pa + 2) with (S (S pa)) by lia. one st_pop. one st_load.
+        replace (S (S (S (S pa)))) with (pa + 4) by lia. apply steps_refl.
+      * intros; eapply (S2' c o); eauto.
+Qed.
+
+Lemma foldgen_alt : forall ws g,
+  foldgen bool (fun g w => if truthy w then ([w], None, true) else ([], None, g)) ws g =
+  (filter truthy ws, None, match filter truthy ws with [] => g | _ => true end).
+Proof.
+  induction ws; intros g; simpl; auto.
+  destruct (truthy a); rewrite IHws; simpl; auto.
+  destruct (filter truthy ws); auto.
+Qed.
+
+Lemma impl_alt : forall qa qb, Impl qa -> Impl qb -> Impl (QAlt qa qb).
+Proof.
+  intros qa qb IHa IHb. impl_intro. simpl in Hc.
+  destruct (comp qa ce cur (pc + 3) (S nv) sn) as [[[ca n1] s1]|] eqn:Ec; [|discriminate].
+  destruct (comp qb ce cur (pc + 3 + length ca + 11) n1 s1) as [[[cb n2] s2]|] eqn:Ec0; [|discriminate].
+  inversion Hc; subst cq nv' sn'. clear Hc.
+  destruct (comp_mono _ _ _ _ _ _ _ _ _ Ec) as [M1 _]. destruct (comp_mono _ _ _ _ _ _ _ _ _ Ec0) as [M2 _].
+  std_facts. pose proof (conj S1 S2) as HS. destruct (stable_sub _ _ _ _ _ _ _ _ _ _ _ _ _ HS) as [S1' S2'].
+  assert (HJ0 : Jstd sc ce rho n0 (base + nv) o P vs n g) by (split; auto).
+  set (p1 := pc + 3 + length ca) in *.
+  uncons Hat A0. uncons Hat A1. uncons Hat A2. replace (S (S (S pc))) with (pc + 3) in Hat by lia.
+  destruct (code_at_app _ _ _ _ Hat) as [Hata Hat2]. fold p1 in Hat2.
+  change (Idup :: Ijumpifnot (p1 + 5) :: Ipush (VBool true) :: Istore (cur, nv) :: Ijump (p1 + 11 + length cb) ::
+          Ipop :: Ibacktrack :: Iload (cur, nv) :: Ijumpifnot (p1 + 11) :: Ibacktrack :: Ipop :: cb)
+    with ([Idup; Ijumpifnot (p1 + 5); Ipush (VBool true); Istore (cur, nv); Ijump (p1 + 11 + length cb);
+           Ipop; Ibacktrack; Iload (cur, nv); Ijumpifnot (p1 + 11); Ibacktrack; Ipop] ++ cb) in Hat2.
+  destruct (code_at_app _ _ _ _ Hat2) as [Hmid Hatb]. simpl length in Hatb.
+  uncons Hmid B0. uncons Hmid B1. uncons Hmid B2. uncons Hmid B3. uncons Hmid B4. uncons Hmid B5.
+  uncons Hmid B6. uncons Hmid B7. uncons Hmid B8. uncons Hmid B9.
+  subst c.
+  match goal with |- context [ctx_of sc (pc + length ?l)] =>
+    assert (Epc : pc + length l = p1 + 11 + length cb)
+      by (simpl; repeat (rewrite app_length; simpl); unfold p1; lia); rewrite Epc in * end.
+  set (pend := p1 + 11 + length cb) in *.
+  set (c := ctx_of sc pend st fk (base + nv) (base + n2) o ko K ce n0 (ctr g)).
+  destruct (update_some vs (base + nv) (SV (VBool false))) as [vs1 U]; [lia|].
+  destruct (update_spec _ _ _ _ U) as (UL & UN & UO).
+  set (fx := F sc (S (S pc)) (SV v :: st) o (ctr g)).
+  assert (HJ1 : Jstd sc ce rho n0 (base + nv) o P vs1 n g) by (eapply Jstd_update; eauto; lia).
+  eapply G_pre; [one st_push; one st_store; one st_fork; apply steps_refl
+                |eapply chg_update; [exact U|simpl; lia]|cl|].
+  replace (S (S (S pc))) with (pc + 3) by lia.
+  pose proof HJ1 as (E1 & Hn1 & Hl1 & HP1).
+  pose proof (impl_inner qa IHa sc cur base Hcur ce (pc + 3) (S nv) sn ca n1 s1 Ec Hata rho v st (fx :: fk) vs1 n n0 o g
+                ltac:(eapply envOK_lim; eauto; lia) Hn ltac:(lia) Hl1) as HA. cbv zeta in HA. fold p1 in HA.
+  set (fb := fun (b : bool) (w : jv) => if truthy w then ([w], @None exn, true) else ([], None, b)).
+  set (Jg := fun (b : bool) (a : list sv) => nth_error a (base + nv) = Some (SV (VBool b))).
+  pose proof (fold_std sc p1 st (base + S nv) (base + n1) pend st (fx :: fk) (base + nv) (base + n2) o ko K ce n0 (ctr g) rho (base + nv) P
+                bool Jg fb (fun i => i = base + nv) ce
+                HS ltac:(lia) ltac:(lia) Hko Hoo (le_n _) ltac:(lia) Hkl HK1 HK2) as HF. cbv zeta in HF.
+  destruct (den qa rho v) as [ws fin] eqn:Ed. cbn [fst snd] in HA.
+  set (ts := filter truthy ws).
+  set (gf := match ts with [] => false | _ => true end).
+  set (c0 := ctx_of sc pend st (fx :: fk) (base + nv) (base + n2) o ko K ce n0 (ctr g)).
+  assert (HG : G c0 ts (Tend c0 fin (fun a m x => Jstd sc ce rho n0 (base + nv) o P a m x /\ Jg gf a))
+                 (N sc (pc + 3) (SV v :: st) (fx :: fk) vs1 n o g)).
+  { refine (HF _ eq_refl _ _ ws false _ fin ts None gf HA _ (le_n _) (foldgen_alt ws false)).
+    - intros i ->. lia.
+    - intros b p q Hg C. unfold Jg in *. rewrite <- Hg. symmetry. apply C. lia.
+    - intros w b fk' vs' n' o' x os' x' g' [Hj Hg] Ho' Ht' Hfk Efb. unfold fb in Efb. pose proof Hj as (E' & Hn' & Hl' & Hp').
+      eapply G_pre; [one st_dup; one st_jumpifnot; apply steps_refl|apply chg_refl|cl|].
+      destruct (truthy w); inversion Efb; subst os' x' g'.
+      + destruct (update_some vs' (base + nv) (SV (VBool true))) as [vs'' U']; [lia|].
+        destruct (update_spec _ _ _ _ U') as (UL' & UN' & UO').
+        eapply G_single with (vs3 := vs'') (n3 := n') (o3 := o') (g3 := x);
+          [one st_push; one st_store; one st_jump; apply steps_refl|eapply chg_update; [exact U'|simpl; auto]|cl|simpl; lia|].
+        intros vs2 n2' g2 Kp L2. split.
+        * assert (Hj'' : Jstd sc ce rho n0 (base + nv) o P vs'' n' x) by (eapply Jstd_update; eauto; lia).
+          refine (Jstd_stable_cx _ _ _ _ _ _ _ _ _ _ _ K S1' S2' HK2 _ _ o' _ _ _ _ _ _ _ Hj'' Kp L2); [reflexivity|reflexivity|lia].
+        * unfold Jg. rewrite <- UN'. symmetry. apply Kp. simpl. apply HK1. lia.
+      + eapply G_end; [replace (p1 + 5) with (S (S (S (S (S p1))))) by lia; one st_pop; one st_backtrack; apply steps_refl
+                      |apply chg_refl|cl|reflexivity|split; auto].
+    - split; [exact HJ1|exact UN]. }
+  (* from the base with the fork of // to the base below it *)
+  cbn [Den.den]. rewrite Ed. fold ts.
+  set (Tfin := fun z1 : state =>
+     match fin with
+     | Some x => Tend c (Some x) P z1
+     | None => match ts with
+               | [] => G c (fst (den qb rho v)) (Tend c (snd (den qb rho v)) P) z1
+               | _ => Tend c None P z1
+               end
+     end).
+  assert (Hfx : Forall (fun f => g_ctr c <= f_ctr f) [fx]) by (constructor; [simpl; lia|constructor]).
+  assert (HG2 : G c ts Tfin (N sc (pc + 3) (SV v :: st) (fx :: fk) vs1 n o g)).
+  { match type of HG with G _ ?w0 _ ?st0 =>
+      refine (G_ctx nt code c0 c [fx] (fun _ _ gg => ctr g <= ctr gg) _ _
+              eq_refl eq_refl eq_refl eq_refl (fun _ H => H) (fun _ _ _ H => H) (fun _ _ H => H) (le_n _) (le_n _) (le_n _) Hfx _ _ _ _ w0 st0 (le_n _) HG) end;
+      try (intros; unfold cle in *; simpl in *; lia).
+    - intros x vs' n' g' _ _. exists vs', n', g'. split; [eapply fork_transparent; eauto|]. split; [apply chg_refl|cl].
+    - intros z1 Hz (e & vs4 & n4 & g4 & St4 & Ch4 & Le4 & HE4 & ((E4 & Hn4 & Hl4 & HP4) & Hg4)). simpl in St4, Ch4. cbn [g_sc g_ce c0 ctx_of] in HE4.
+      unfold Tfin. destruct fin as [x|]; simpl in HE4.
+      + destruct (encR_some _ _ _ _ _ HE4) as (y & ->).
+        exists (Some y), vs4, n4, g4. split; [eapply steps_trans; [exact St4|eapply fork_transparent; eauto]|].
+        split; [exact Ch4|]. split; [exact Le4|]. split; [exact HE4|exact HP4].
+      + subst e. unfold Jg, gf in Hg4.
+        assert (StL : forall b, nth_error vs4 (base + nv) = Some (SV (VBool b)) ->
+                  steps z1 (N sc (if b then S (S (S (S (S (S (S (S (S p1)))))))) else p1 + 11) (SV v :: st) fk vs4 n4 o g4)).
+        { intros b Hb. eapply steps_trans; [exact St4|]. one st_popfork. one bt_fork_none.
+          replace (p1 + 7) with (S (S (S (S (S (S (S p1))))))) by lia. one st_load.
+          eapply steps_step; [eapply (st_jumpifnot nt code sc _ _ (VBool b)); eauto|]. destruct b; apply steps_refl. }
+        destruct ts as [|t0 ts'].
+        * eapply G_pre; [exact (StL false Hg4)|exact Ch4|exact Le4|].
+          replace (S (S (S (S (S (S (S (S (S (S (S p1))))))))))) with (p1 + 11) in Hatb by lia.
+          pose proof (IHb sc cur base Hcur ce (p1 + 11) n1 s1 cb n2 s2 Ec0 Hatb rho v st fk vs4 n4 n0 o ko g4 K P) as HB. cbv zeta in HB.
+          refine (G_sub nt code (ctx_of sc pend st fk (base + n1) (base + n2) o ko K ce n0 (ctr g4)) c _ _
+                    eq_refl eq_refl eq_refl eq_refl _ _ _ (le_n _) (le_n _) _ _ _ _ (HB _ _ _ _ _ _ _ _ _)); auto; try lia.
+          -- simpl; intros; lia.
+          -- simpl. simpl in Hz. destruct Le4; lia.
+          -- intros s2'. apply Tend_sub; auto. simpl; intros; lia.
+          -- eapply envOK_lim; eauto. lia.
+          -- intros; apply HK1; lia.
+          -- eapply stable_P_sub; eauto; lia.
+        * exists None, vs4, n4, g4. split; [|split; [exact Ch4|split; [exact Le4|split; [reflexivity|exact HP4]]]].
+          eapply steps_trans; [exact (StL true Hg4)|]. one st_backtrack. apply steps_refl. }
+  unfold Tfin in HG2. destruct fin as [x|]; cbn [fst snd]; [exact HG2|].
+  destruct ts as [|t0 ts'] eqn:Ets; cbn [fst snd]; [|exact HG2].
+  change (G c ([] ++ fst (den qb rho v)) (Tend c (snd (den qb rho v)) P) (N sc (pc + 3) (SV v :: st) (fx :: fk) vs1 n o g)).
+  apply G_app. exact HG2.
+Qed.
+
+(* G_fold with the invariant J = Jstd /\ Jg, for contexts given by arbitrary own sets *)
+Lemma fold_gen : forall (c1 c : gctx) rho lim ol (P : list sv -> nat -> gx -> Prop) (X : Type) (Jg : X -> list sv -> Prop)
+   (fb : X -> jv -> list jv * option exn * X) (ownb0 : nat -> Prop) (ceb : cenv),
+   let J := fun g a m x => Jstd (g_sc c) (g_ce c) rho (g_n0 c) lim ol P a m x /\ Jg g a in
+   g_sc c1 = g_sc c -> g_base c1 = g_base c -> g_ce c1 = g_ce c -> g_n0 c1 = g_n0 c -> g_off c1 = g_off c -> g_ctr c1 = g_ctr c ->
+   g_koff c1 = g_off c -> g_koff c <= g_off c ->
+   (forall i, g_own c1 i -> g_own c i) -> (forall i, ownb0 i -> g_own c i /\ i < g_off c) -> (forall i, g_off c <= i -> g_own c i) ->
+   (forall i, g_keep c1 i -> g_keep c i /\ ~ ownb0 i /\ i < g_off c) ->
+   (forall i, kept (g_sc c) (g_ce c) i -> ~ g_own c i) ->
+   ce_lbls ceb = ce_lbls (g_ce c) ->
+   (forall a b m x m' x', P a m x -> chg (g_own c1) a b -> cle m x m' x' -> P b m' x') ->
+   (forall g a b, Jg g a -> chg (g_own c1) a b -> Jg g b) ->
+   (forall w g fk' vs n o x os xx g', J g vs n x -> g_off c <= o <= length vs -> g_ctr c <= ctr x ->
+        Forall (fun f => g_ctr c <= f_ctr f) fk' -> fb g w = (os, xx, g') ->
+        G (cbody c ownb0 ceb fk' o (ctr x)) os (Tend (cbody c ownb0 ceb fk' o (ctr x)) xx (J g'))
+          (N (g_sc c) (g_pc c1) (SV w :: g_st c1) (fk' ++ g_base c) vs n o x)) ->
+   forall ws1 g s fin1 os x g',
+     G c1 ws1 (Tend c1 fin1 (fun _ _ _ => True)) s -> J g (vars_of s) (lbl_of s) (gx_of s) -> g_ctr c <= ctr (gx_of s) ->
+     foldgen X fb ws1 g = (os, x, g') ->
+     G c os (Tend c (match x with Some e => Some e | None => fin1 end) (J g')) s.
+Proof.
+  intros c1 c rho lim ol P X Jg fb ownb0 ceb J Hsc Hb Hce Hn0 Hoff Hctr Hko1 Hko Ho1 Hob Hoo Hk1 Hkept Hlb HP HJg Hbody ws1 g s fin1 os x g' HA HJ Hct Ef.
+  refine (G_fold nt code c1 c X J fb ownb0 ceb Hsc Hb Hce Hn0 Hoff Hctr Hko1 Hko Ho1 Hob Hoo Hk1 Hkept Hlb _ _ Hbody ws1 g s fin1 os x g' HA HJ Hct Ef).
+  - intros g0 p q m y m' y' [(E & Hn & Hl & Hp) Hg] C Hm. split; [|eapply HJg; eauto].
+    split; [|split; [destruct Hm; lia|split; [destruct C; lia|eapply HP; eauto]]].
+    eapply envOK_same; [exact E|]. intros k Hk. apply C. intro Hc1. apply (Hkept k Hk). auto.
+  - intros g0 p m y [(E & _) _]. eapply envOK_lblOK; eauto.
+Qed.
+
+Lemma Jstd_update_gen : forall sc ce rho n0 lim o (P : list sv -> nat -> gx -> Prop) vs n g k x vs',
+  Jstd sc ce rho n0 lim o P vs n g -> update vs k x = Some vs' -> ~ kept sc ce k -> P vs' n g -> Jstd sc ce rho n0 lim o P vs' n g.
+Proof.
+  intros sc ce rho n0 lim o P vs n g k x vs' (E & Hn & Hl & Hp) U Hk Hp'.
+  destruct (update_spec _ _ _ _ U) as (UL & UN & UO).
+  split; [|split; [auto|split; [lia|auto]]].
+  eapply envOK_same; [exact E|]. intros j Hj. symmetry. apply UO. intro; subst; auto.
+Qed.
+
+Lemma last_cons_default : forall (us : list jv) a d, last (a :: us) d = last us a.
+Proof.
+  induction us; intros a0 d; [reflexivity|].
+  change (last (a0 :: a :: us) d) with (last (a :: us) d). rewrite (IHus a d).
+  change (last (a :: us) a0) with (match us with [] => a | _ => last us a0 end).
+  destruct us; [reflexivity|]. rewrite <- (IHus a a0). reflexivity.
+Qed.
+
+Lemma foldgen_last : forall us a, foldgen jv (fun (_ : jv) u => ([], None, u)) us a = ([], None, last us a).
+Proof.
+  induction us; intros a0; [reflexivity|].
+  change (foldgen jv (fun (_ : jv) u => ([], None, u)) (a :: us) a0) with
+    (let '(os', x', g'') := foldgen jv (fun (_ : jv) u => (@nil jv, @None exn, u)) us a in (@nil jv ++ os', x', g'')).
+  rewrite IHus. simpl app. rewrite last_cons_default. reflexivity.
+Qed.
+
+Lemma reduce_foldgen : forall (updf : jv -> jv -> result) ws a,
+  exists g, foldgen jv (fun a w => ([], snd (updf w a), last_or (fst (updf w a)) a)) ws a =
+              ([], match reduce_fold updf ws a with inr e => Some e | inl _ => None end, g) /\
+            (forall acc, reduce_fold updf ws a = inl acc -> g = acc).
+Proof.
+  intros updf. induction ws; intros a0; simpl.
+  - exists a0. split; auto. intros acc H. inversion H; auto.
+  - destruct (updf a a0) as [us [e|]] eqn:Eu; cbn [fst snd].
+    + exists (last_or us a0). split; auto. intros acc H. discriminate.
+    + destruct (IHws (last_or us a0)) as (g & Hf & Hg). rewrite Hf. exists g. split; auto.
+Qed.
+
+(* the update of reduce/foreach: store $x, load the accumulator, run the update as a generator *)
+Lemma upd_inner : forall qu, Impl qu -> forall sc cur base, (forall k, index_of sc (cur, k) = Some (base + k)) ->
+  forall ce x n2 p2 sn cu n3 sn',
+  comp qu (add_var ce x (cur, n2)) cur (S (S p2)) (S n2) sn = Some (cu, n3, sn') -> code_at (S (S p2)) cu ->
+  forall accs, at_ p2 (Istore (cur, n2)) -> at_ (S p2) (Iload (cur, accs)) ->
+  forall rho w a st fk vs n n0 o g lim, accs < n2 -> lim <= base + n2 ->
+  envOK sc ce rho vs n0 lim -> n0 <= n -> base + n3 <= o -> o <= length vs -> nth_error vs (base + accs) = Some (SV a) ->
+  exists vs1, update vs (base + n2) (SV w) = Some vs1 /\
+  steps (N sc p2 (SV w :: st) fk vs n o g) (N sc (S (S p2)) (SV a :: st) fk vs1 n o g) /\
+  envOK sc (add_var ce x (cur, n2)) ((x, w) :: rho) vs1 n0 (base + S n2) /\ nth_error vs1 (base + accs) = Some (SV a) /\
+  let c1 := ctx_of sc (S (S p2) + length cu) st fk (base + S n2) (base + n3) o o
+              (fun i => base + S n2 <= i < base + n3 \/ kept sc (add_var ce x (cur, n2)) i) (add_var ce x (cur, n2)) n0 (ctr g) in
+  G c1 (fst (den qu ((x, w) :: rho) a)) (Tend c1 (snd (den qu ((x, w) :: rho) a)) (fun _ _ _ => True))
+               (N sc (S (S p2)) (SV a :: st) fk vs1 n o g).
+Proof.
+  intros qu IHu sc cur base Hcur ce x n2 p2 sn cu n3 sn' Eu Hatu accs A0 A1 rho w a st fk vs n n0 o g lim Hacc Hlim HE Hn Ho Hl Ha.
+  destruct (comp_mono _ _ _ _ _ _ _ _ _ Eu) as [M _].
+  destruct (update_some vs (base + n2) (SV w)) as [vs1 U]; [lia|]. exists vs1. split; [exact U|].
+  destruct (update_spec _ _ _ _ U) as (UL & UN & UO).
+  assert (Ha1 : nth_error vs1 (base + accs) = Some (SV a)) by (rewrite UO; [auto|lia]).
+  assert (HE1 : envOK sc (add_var ce x (cur, n2)) ((x, w) :: rho) vs1 n0 (base + S n2)).
+  { eapply envOK_add_var; [|apply Hcur|lia|exact UN].
+    eapply envOK_lim; [|instantiate (1 := lim); lia].
+    eapply envOK_same; [exact HE|]. intros k Hk. symmetry. apply UO.
+    pose proof (kept_lt _ _ _ _ _ _ _ HE Hk). lia. }
+  split; [one st_store; one st_load; apply steps_refl|]. split; [exact HE1|]. split; [exact Ha1|].
+  intros c1.
+  apply (impl_inner qu IHu sc cur base Hcur (add_var ce x (cur, n2)) (S (S p2)) (S n2) sn cu n3 sn' Eu Hatu ((x, w) :: rho) a st fk vs1 n n0 o g); auto; try lia.
+Qed.
+
+(* the update phase of reduce/foreach for one source output w: store $x; load acc; update; then, for every
+   output u of the update, a body that maintains the accumulator (ghost) in slot nv of the current frame *)
+Lemma upd_level : forall qu, Impl qu -> forall sc cur base, (forall k, index_of sc (cur, k) = Some (base + k)) ->
+  forall ce x n2 p2 sn cu n3 sn',
+  comp qu (add_var ce x (cur, n2)) cur (S (S p2)) (S n2) sn = Some (cu, n3, sn') -> code_at (S (S p2)) cu ->
+  forall nv, at_ p2 (Istore (cur, n2)) -> at_ (S p2) (Iload (cur, nv)) ->
+  forall rho w st fk K n0 hi o ko (P : list sv -> nat -> gx -> Prop) pcx (fbC : jv -> jv -> list jv * option exn * jv)
+         (ownbC0 : nat -> Prop) oe y,
+  let ce3 := add_var ce x (cur, n2) in
+  let rho3 := (x, w) :: rho in
+  let lo := base + nv in
+  let P3 := Jstd sc ce rho n0 lo o P in
+  let cC := {| g_sc := sc; g_pc := pcx; g_st := st; g_base := fk; g_own := fun i => i = lo \/ base + S n2 <= i < hi \/ oe <= i;
+               g_keep := K; g_ce := ce3; g_n0 := n0; g_off := oe; g_koff := ko; g_ctr := ctr y |} in
+  let cOut := {| g_sc := sc; g_pc := pcx; g_st := st; g_base := fk; g_own := fun i => (i = lo \/ base + n2 <= i < hi) \/ oe <= i;
+                 g_keep := K; g_ce := ce; g_n0 := n0; g_off := oe; g_koff := ko; g_ctr := ctr y |} in
+  let JC := fun g a m z => Jstd sc ce3 rho3 n0 (base + S n2) oe P3 a m z /\ nth_error a lo = Some (SV g) in
+  nv < n2 -> base + n3 <= hi -> hi <= ko -> ko <= o -> o <= oe ->
+  (forall i, lo <= i < hi -> K i) -> (forall i, kept sc ce i -> K i) -> (forall i, kept sc ce i -> i < lo) ->
+  (forall (O : nat -> Prop) x y k h k' h', (forall i, O i -> lo <= i < hi \/ o <= i) -> P x k h -> chg O x y -> cle k h k' h' -> P y k' h') ->
+  (forall cx (o3 : nat) x y k h k' h', g_keep cx = K -> g_koff cx = ko -> o <= o3 -> P x k h -> keepK cx x y -> cle k h k' h' -> P y k' h') ->
+  (forall i, ownbC0 i -> i = lo \/ base + n3 <= i < hi) ->
+  (forall u g fk3 vs n o' z os xx g', JC g vs n z -> oe <= o' <= length vs -> ctr y <= ctr z ->
+     Forall (fun f => ctr y <= f_ctr f) fk3 -> fbC g u = (os, xx, g') ->
+     G (cbody cC ownbC0 ce3 fk3 o' (ctr z)) os (Tend (cbody cC ownbC0 ce3 fk3 o' (ctr z)) xx (JC g'))
+       (N sc (S (S p2) + length cu) (SV u :: st) (fk3 ++ fk) vs n o' z)) ->
+  forall a vs n, Jstd sc ce rho n0 lo o P vs n y -> nth_error vs lo = Some (SV a) -> oe <= length vs ->
+  forall os xx g', foldgen jv fbC (fst (den qu rho3 a)) a = (os, xx, g') ->
+  G cOut os (Tend cOut (match xx with Some e => Some e | None => snd (den qu rho3 a) end)
+                (fun a' m z => Jstd sc ce rho n0 lo o P a' m z /\ nth_error a' lo = Some (SV g')))
+    (N sc p2 (SV w :: st) fk vs n oe y).
+Proof.
+  intros qu IHu sc cur base Hcur ce x n2 p2 sn cu n3 sn' Eu Hatu nv A0 A1 rho w st fk K n0 hi o ko P pcx fbC ownbC0 oe y
+         ce3 rho3 lo P3 cC cOut JC Hnv Hhi Hko Hoo Hoe HK1 HK2 Hkl S1' S2' HobC HbodyC a vs n Hj Ha Hlen os xx g' Ef.
+  destruct (comp_mono _ _ _ _ _ _ _ _ _ Eu) as [M _]. pose proof Hj as (E & Hn & Hl & Hp).
+  destruct (upd_inner qu IHu sc cur base Hcur ce x n2 p2 sn cu n3 sn' Eu Hatu nv A0 A1 rho w a st fk vs n n0 oe y lo Hnv ltac:(unfold lo; lia)
+              E Hn ltac:(lia) Hlen Ha) as (vs1 & U & St1 & HE1 & Ha1 & HU). cbv zeta in HU.
+  destruct (update_spec _ _ _ _ U) as (UL & UN & UO).
+  assert (HP3 : P3 vs1 n y) by (unfold P3; eapply (Jstd_update _ _ _ _ _ _ lo hi); [exact S1'|exact Hj|exact U|unfold lo; lia|unfold lo; lia]).
+  assert (Hk3 : forall i, kept sc ce3 i -> i = base + n2 \/ kept sc ce i).
+  { intros i Hi. exact (kept_add_var _ _ _ _ _ _ (Hcur n2) Hi). }
+  assert (HG : G cC os (Tend cC (match xx with Some e => Some e | None => snd (den qu rho3 a) end) (JC g'))
+                 (N sc (S (S p2)) (SV a :: st) fk vs1 n oe y)).
+  { refine (fold_gen (ctx_of sc (S (S p2) + length cu) st fk (base + S n2) (base + n3) oe oe
+                        (fun i => base + S n2 <= i < base + n3 \/ kept sc ce3 i) ce3 n0 (ctr y))
+              cC rho3 (base + S n2) oe P3 jv (fun g a' => nth_error a' lo = Some (SV g)) fbC ownbC0 ce3
+              eq_refl eq_refl eq_refl eq_refl eq_refl eq_refl eq_refl _ _ _ _ _ _ eq_refl _ _ HbodyC _ a _ _ os xx g' HU _ (le_n _) Ef).
+    - simpl. lia.
+    - simpl; intros; lia.
+    - simpl. intros i Hi. apply HobC in Hi. unfold lo in *. lia.
+    - simpl; intros; lia.
+    - simpl. intros i [Hi|Hi].
+      + split; [apply HK1; unfold lo; lia|]. split; [intro Ho; apply HobC in Ho; unfold lo in *; lia|lia].
+      + destruct (Hk3 i Hi) as [->|Hi'].
+        * split; [apply HK1; unfold lo; lia|]. split; [intro Ho; apply HobC in Ho; unfold lo in *; lia|lia].
+        * pose proof (Hkl i Hi'). split; [apply HK2; auto|]. split; [intro Ho; apply HobC in Ho; unfold lo in *; lia|unfold lo in *; lia].
+    - simpl. intros i Hi. destruct (Hk3 i Hi) as [->|Hi']; [unfold lo; lia|apply Hkl in Hi'; unfold lo in *; lia].
+    - intros p q m z m' z' Hq C Hm. unfold P3 in *.
+      eapply (Jstd_chg' _ _ _ _ _ _ lo hi); [exact S1'| |exact Hq|exact C|exact Hm]. simpl; unfold lo; intros; lia.
+    - intros g p q Hg C. rewrite <- Hg. symmetry. apply C. simpl. unfold lo. lia.
+    - simpl. split; [|exact Ha1]. split; [exact HE1|]. split; [exact Hn|]. split; [lia|exact HP3]. }
+  eapply G_pre; [exact St1|eapply chg_update; [exact U|simpl; lia]|cl|].
+  refine (G_sub nt code cC cOut _ _ eq_refl eq_refl eq_refl eq_refl _ _ _ (le_n _) (le_n _) (le_n _) _ _ _ HG).
+  - simpl; intros; lia.
+  - intros o3 p q Kp. exact Kp.
+  - intros p q Kp. exact Kp.
+  - intros s0 (e & vs4 & n4 & g4 & St4 & Ch4 & Le4 & HE4 & ((E4 & Hn4 & Hl4 & HP4) & Hg4)).
+    exists e, vs4, n4, g4. split; [exact St4|]. split; [eapply chg_mono; [|exact Ch4]; simpl; intros; lia|].
+    split; [exact Le4|]. split; [eapply encR_lbls; [|exact HE4]; reflexivity|]. split; [exact HP4|exact Hg4].
+Qed.
+
+Lemma impl_reduce : forall qs x qi qu, Impl qs -> Impl qi -> Impl qu -> Impl (QReduce qs x qi qu).
+Proof.
+  intros qs x qi qu IHs IHi IHu. impl_intro. simpl in Hc.
+  destruct (comp qi ce cur (S pc) (S nv) sn) as [[[ci n1] s1]|] eqn:Ec; [|discriminate].
+  destruct (comp qs ce cur (pc + 1 + length ci + 2) n1 s1) as [[[cs n2] s2]|] eqn:Ec0; [|discriminate].
+  destruct (comp qu (add_var ce x (cur, n2)) cur (pc + 1 + length ci + 2 + length cs + 2) (S n2) s2) as [[[cu n3] s3]|] eqn:Ec1; [|discriminate].
+  inversion Hc; subst cq nv' sn'. clear Hc.
+  destruct (comp_mono _ _ _ _ _ _ _ _ _ Ec) as [M1 _]. destruct (comp_mono _ _ _ _ _ _ _ _ _ Ec0) as [M2 _].
+  destruct (comp_mono _ _ _ _ _ _ _ _ _ Ec1) as [M3 _].
+  std_facts. pose proof (conj S1 S2) as HS. destruct (stable_sub _ _ _ _ _ _ _ _ _ _ _ _ _ HS) as [S1' S2'].
+  assert (HJ0 : Jstd sc ce rho n0 (base + nv) o P vs n g) by (split; auto).
+  set (q1 := S pc + length ci) in *.
+  replace (pc + 1 + length ci) with q1 in * by (unfold q1; lia).
+  replace (q1 + 2) with (S (S q1)) in * by lia.
+  set (q2 := S (S q1) + length cs) in *.
+  replace (q2 + 2) with (S (S q2)) in * by lia.
+  set (q3 := S (S q2) + length cu) in *.
+  replace (q3 + 2) with (S (S q3)) in * by lia.
+  uncons Hat A0. destruct (code_at_app _ _ _ _ Hat) as [Hati Hat2]. fold q1 in Hat2.
+  uncons Hat2 A1. uncons Hat2 A2. destruct (code_at_app _ _ _ _ Hat2) as [Hats Hat3]. fold q2 in Hat3.
+  uncons Hat3 A3. uncons Hat3 A4. destruct (code_at_app _ _ _ _ Hat3) as [Hatu Hat4]. fold q3 in Hat4.
+  uncons Hat4 A5. uncons Hat4 A6. uncons Hat4 A7. uncons Hat4 A8.
+  subst c.
+  match goal with |- context [ctx_of sc (pc + length ?l)] =>
+    assert (Epc : pc + length l = S (S (S (S q3))))
+      by (simpl; repeat (rewrite app_length; simpl); unfold q3, q2, q1; lia); rewrite Epc in * end.
+  set (pend := S (S (S (S q3)))) in *.
+  set (lo := base + nv) in *. set (hi := base + n3) in *.
+  set (c := ctx_of sc pend st fk lo hi o ko K ce n0 (ctr g)).
+  cbn [Den.den].
+  set (updf := fun w acc => den qu ((x, w) :: rho) acc).
+  match goal with |- G _ (fst (bind _ ?f)) _ _ => set (f0 := f) end.
+  pose proof (impl_inner qi IHi sc cur base Hcur ce (S pc) (S nv) sn ci n1 s1 Ec Hati rho v (SV v :: st) fk vs n n0 o g
+                ltac:(eapply envOK_lim; eauto; lia) Hn ltac:(unfold hi in *; lia) Hlen) as HA. cbv zeta in HA. fold q1 in HA.
+  eapply G_pre; [one st_dup; apply steps_refl|apply chg_refl|cl|].
+  eapply G_impl; [|refine (bind_std f0 (fun _ => True) sc q1 (SV v :: st) (base + S nv) (base + n1) pend st fk lo hi o ko K ce n0 (ctr g) rho lo P
+            (fun i => i = lo \/ base + n1 <= i < hi) ce HS ltac:(unfold lo; lia) ltac:(unfold hi; lia) Hko Hoo (le_n _) ltac:(unfold lo, hi; lia)
+            Hkl HK1 HK2 _ eq_refl _ _ (den qi rho v) _ HA _ (le_n _))].
+  { intros s0. apply Tend_weaken. intros p m z [Hp _]. exact Hp. }
+  { intros i [->|Hi]; unfold lo, hi in *; lia. }
+  { auto. }
+  2:{ split; auto. }
+  (* one accumulator start value s0 *)
+  intros s0 fk' vs' n' o' z [Hj _] Ho' Ht' Hfk. pose proof Hj as (E' & Hn' & Hl' & Hp').
+  destruct (update_some vs' lo (SV s0)) as [vs1 U]; [unfold lo, hi in *; lia|].
+  destruct (update_spec _ _ _ _ U) as (UL & UN & UO).
+  assert (HJ1 : Jstd sc ce rho n0 lo o P vs1 n' z) by (eapply (Jstd_update _ _ _ _ _ _ lo hi); eauto; unfold lo, hi in *; lia).
+  set (F0 := fk' ++ fk) in *.
+  set (fx := F sc (S q1) (SV v :: st) o' (ctr z)).
+  eapply G_pre; [one st_store; one st_fork; apply steps_refl|eapply chg_update; [exact U|simpl; auto]|cl|].
+  pose proof HJ1 as (E1 & Hn1 & Hl1 & Hp1).
+  pose proof (impl_inner qs IHs sc cur base Hcur ce (S (S q1)) n1 s1 cs n2 s2 Ec0 Hats rho v st (fx :: F0) vs1 n' n0 o' z
+                ltac:(eapply envOK_lim; eauto; unfold lo; lia) Hn1 ltac:(unfold hi in *; lia) ltac:(lia)) as HB. cbv zeta in HB. fold q2 in HB.
+  set (fbB := fun a w => (@nil jv, snd (updf w a), last_or (fst (updf w a)) a)).
+  set (ownbB0 := fun i => i = lo \/ base + n2 <= i < hi).
+  set (cB := {| g_sc := sc; g_pc := 0; g_st := st; g_base := fx :: F0; g_own := fun i => (i = lo \/ base + n1 <= i < hi) \/ o' <= i;
+                g_keep := K; g_ce := ce; g_n0 := n0; g_off := o'; g_koff := ko; g_ctr := ctr z |}).
+  set (JgB := fun (a : jv) (a' : list sv) => nth_error a' lo = Some (SV a)).
+  destruct (den qs rho v) as [ws sx] eqn:Eds. cbn [fst snd] in HB.
+  destruct (reduce_foldgen updf ws s0) as (gB & EfB & HgB).
+  assert (HGB : G cB [] (Tend cB (match (match reduce_fold updf ws s0 with inr e => Some e | inl _ => None end)
+                                      with Some e => Some e | None => sx end)
+                            (fun a' m y => Jstd sc ce rho n0 lo o P a' m y /\ JgB gB a'))
+                  (N sc (S (S q1)) (SV v :: st) (fx :: F0) vs1 n' o' z)).
+  { refine (fold_gen (ctx_of sc q2 st (fx :: F0) (base + n1) (base + n2) o' o' (fun i => base + n1 <= i < base + n2 \/ kept sc ce i) ce n0 (ctr z))
+              cB rho lo o P jv JgB fbB ownbB0 ce eq_refl eq_refl eq_refl eq_refl eq_refl eq_refl eq_refl _ _ _ _ _ _ eq_refl _ _ _
+              ws s0 _ sx [] _ gB HB _ (le_n _) EfB).
+    - simpl. lia.
+    - simpl. unfold hi. intros; lia.
+    - simpl. unfold ownbB0, lo, hi in *. intros; lia.
+    - simpl; intros; lia.
+    - simpl. unfold ownbB0. intros i [Hi|Hi].
+      + split; [apply HK1; unfold lo, hi; lia|]. split; [unfold lo, hi in *; lia|unfold hi in *; lia].
+      + pose proof (Hkl i Hi). split; [apply HK2; auto|]. split; [unfold lo, hi in *; lia|unfold lo, hi in *; lia].
+    - simpl. intros i Hi. apply Hkl in Hi. unfold lo, hi in *. lia.
+    - intros p q m y m' y' Hq C Hm. eapply S1'; [|exact Hq|exact C|exact Hm]. simpl; unfold lo, hi; intros; lia.
+    - intros a p q Hg C. unfold JgB in *. rewrite <- Hg. symmetry. apply C. simpl. unfold lo. lia.
+    - (* one source output w, accumulator a *)
+      intros w a fk2 vs2 m2 o2 z2 os2 x2 g2 [Hj2 Hg2] Ho2 Ht2 Hfk2 Efb. unfold fbB in Efb. inversion Efb; subst os2 x2 g2. clear Efb.
+      pose proof (foldgen_last (fst (updf w a)) a) as EfC.
+      pose proof (upd_level qu IHu sc cur base Hcur ce x n2 q2 s2 cu n3 s3 Ec1 Hatu nv A3 A4 rho w st (fk2 ++ fx :: F0) K n0 hi o ko P 0
+                (fun (_ : jv) u => ([], None, u)) (fun i => i = lo) o2 z2) as HU. cbv zeta in HU. fold lo in HU.
+      refine (HU ltac:(lia) (le_n _) Hko Hoo ltac:(simpl in Ho2; lia) HK1 HK2 Hkl S1' S2' _ _ a vs2 m2 Hj2 Hg2 ltac:(simpl in Ho2; lia) [] None _ EfC).
+      + intros i ->. auto.
+      + intros u g3 fk3 vs3 m3 o3 z3 os3 x3 g3' [Hj3 Hg3] Ho3 Ht3 Hfk3 Efc. inversion Efc; subst os3 x3 g3'. clear Efc.
+        pose proof Hj3 as (E3 & Hn3 & Hl3 & Hp3).
+        destruct (update_some vs3 lo (SV u)) as [vs4 U4]; [unfold lo, hi in *; simpl in Ho2; lia|].
+        destruct (update_spec _ _ _ _ U4) as (UL4 & UN4 & UO4).
+        eapply G_end; [one st_store; one st_backtrack; apply steps_refl
+                      |eapply chg_update; [exact U4|simpl; auto]|cl|reflexivity|].
+        split; [|exact UN4].
+        eapply Jstd_update_gen; [exact Hj3|exact U4| |].
+        * intros Hk. apply (kept_add_var _ _ _ _ _ _ (Hcur n2)) in Hk. destruct Hk as [Hk|Hk]; [unfold lo in *; lia|apply Hkl in Hk; lia].
+        * eapply (Jstd_update _ _ _ _ _ _ lo hi); [exact S1'|exact Hp3|exact U4|unfold lo, hi; lia|lia].
+    - split; [exact HJ1|exact UN]. }
+  (* the reduction is over: back to the fork of reduce *)
+  simpl in HGB. destruct HGB as (s' & St & Ch & Le & (e & vs4 & n4 & g4 & St4 & Ch4 & Le4 & HE4 & ((E4 & Hn4 & Hl4 & HP4) & Hg4))).
+  simpl in St4, Ch4. cbn [g_sc g_ce cB] in HE4.
+  assert (Ch' : chg (fun i => (i = lo \/ base + n1 <= i < hi) \/ o' <= i) vs1 vs4) by (eapply chg_trans; eauto).
+  assert (Le' : cle n' z n4 g4) by (eapply cle_trans; eauto).
+  assert (HJ4 : Jstd sc ce rho n0 lo o P vs4 n4 g4 /\ True) by (split; [split|]; auto).
+  unfold f0. try rewrite Eds. fold updf. cbv beta iota.
+  destruct (reduce_fold updf ws s0) as [acc|ex] eqn:Erf.
+  - destruct sx as [ex|]; simpl in HE4; cbn [fst snd].
+    + destruct (encR_some _ _ _ _ _ HE4) as (y & ->).
+      eapply G_end; [eapply steps_trans; [exact St|eapply steps_trans; [exact St4|eapply fork_transparent; eauto]]
+                    |exact Ch'|exact Le'|exact HE4|exact HJ4].
+    + subst e. rewrite (HgB acc eq_refl) in Hg4.
+      eapply G_single with (vs3 := vs4) (n3 := n4) (o3 := o') (g3 := g4);
+        [eapply steps_trans; [exact St|eapply steps_trans; [exact St4|]]|exact Ch'|exact Le'|simpl; destruct Ch' as [L _]; simpl in Ho'; lia|].
+      * one st_popfork. one bt_fork_none. one st_pop. one st_load. apply steps_refl.
+      * intros vs5 n5 g5 Kp L5. destruct HJ4 as [HJ4 _]. split; auto.
+        refine (Jstd_stable_cx _ _ _ _ _ _ _ _ _ _ _ K S1' S2' HK2 _ _ o' _ _ _ _ _ _ _ HJ4 Kp L5); [reflexivity|reflexivity|lia].
+  - simpl in HE4. cbn [fst snd]. destruct (encR_some _ _ _ _ _ HE4) as (y & ->).
+    eapply G_end; [eapply steps_trans; [exact St|eapply steps_trans; [exact St4|eapply fork_transparent; eauto]]
+                  |exact Ch'|exact Le'|exact HE4|exact HJ4].
+Qed.
+
+Lemma foreach_upd_foldgen : forall (ext : jv -> result) us a,
+  foldgen jv (fun (_ : jv) u => (fst (ext u), snd (ext u), u)) us a =
+  (fst (fst (foreach_upd ext us a)), snd (fst (foreach_upd ext us a)), snd (foreach_upd ext us a)).
+Proof.
+  intros ext. induction us; intros a0; simpl; auto.
+  destruct (ext a) as [os [e|]]; cbn [fst snd]; auto.
+  rewrite IHus. destruct (foreach_upd ext us a) as [[os' x'] acc']. reflexivity.
+Qed.
+
+Definition foreach_step (updf : jv -> jv -> result) (extf : jv -> jv -> result) (a w : jv) : list jv * option exn * jv :=
+  let r := foreach_upd (extf w) (fst (updf w a)) a in
+  (fst (fst r), match snd (fst r) with Some e => Some e | None => snd (updf w a) end, snd r).
+
+Lemma foreach_foldgen : forall updf extf ws a,
+  exists g, foldgen jv (foreach_step updf extf) ws a =
+            (fst (foreach_fold updf extf ws a), snd (foreach_fold updf extf ws a), g).
+Proof.
+  intros updf extf. induction ws; intros a0.
+  - simpl. eauto.
+  - change (foldgen jv (foreach_step updf extf) (a :: ws) a0) with
+      (let '(os, x, g') := foreach_step updf extf a0 a in
+       match x with
+       | Some e => (os, Some e, g')
+       | None => let '(os', x', g'') := foldgen jv (foreach_step updf extf) ws g' in (os ++ os', x', g'')
+       end).
+    unfold foreach_step. simpl foreach_fold.
+    destruct (updf a a0) as [us ux]. cbn [fst snd].
+    destruct (foreach_upd (extf a) us a0) as [[os [e|]] acc']; cbn [fst snd].
+    + eauto.
+    + destruct ux as [e|]; cbn [fst snd]; [eauto|].
+      destruct (IHws acc') as (g & Hg). unfold foreach_step in Hg. rewrite Hg. exists g.
+      destruct (foreach_fold updf extf ws acc') as [os' x']. reflexivity.
+Qed.
+
+
+Lemma impl_foreach : forall qs x qi qu ext, Impl qs -> Impl qi -> Impl qu -> Popt Impl ext -> Impl (QForeach qs x qi qu ext).
+Proof.
+  intros qs x qi qu ext IHs IHi IHu IHx. impl_intro. simpl in Hc.
+  destruct (comp qi ce cur (S pc) (S nv) sn) as [[[ci n1] s1]|] eqn:Ec; [|discriminate].
+  destruct (comp qs ce cur (pc + 1 + length ci + 1) n1 s1) as [[[cs n2] s2]|] eqn:Ec0; [|discriminate].
+  destruct (comp qu (add_var ce x (cur, n2)) cur (pc + 1 + length ci + 1 + length cs + 2) (S n2) s2) as [[[cu n3] s3]|] eqn:Ec1; [|discriminate].
+  destruct (comp_mono _ _ _ _ _ _ _ _ _ Ec) as [M1 _]. destruct (comp_mono _ _ _ _ _ _ _ _ _ Ec0) as [M2 _].
+  destruct (comp_mono _ _ _ _ _ _ _ _ _ Ec1) as [M3 _].
+  set (q1 := S pc + length ci) in *.
+  replace (pc + 1 + length ci) with q1 in * by (unfold q1; lia).
+  replace (q1 + 1) with (S q1) in * by lia.
+  set (q2 := S q1 + length cs) in *.
+  replace (q2 + 2) with (S (S q2)) in * by lia.
+  set (q3 := S (S q2) + length cu) in *.
+  replace (q3 + 2) with (S (S q3)) in * by lia.
+  set (ce3 := add_var ce x (cur, n2)) in *.
+  assert (Hsh : exists cx, cq = Idup :: ci ++ Istore (cur, nv) :: cs ++ Istore (cur, n2) :: Iload (cur, nv) :: cu ++ Idup :: Istore (cur, nv) :: cx /\
+              n3 <= nv' /\
+              match ext with
+              | Some e => comp e ce3 cur (S (S q3)) n3 s3 = Some (cx, nv', sn')
+              | None => cx = [] /\ nv' = n3
+              end).
+  { destruct ext as [e|].
+    - destruct (comp e ce3 cur (S (S q3)) n3 s3) as [[[cx n4] s4]|] eqn:Ex; [|discriminate]. inversion Hc; subst.
+      exists cx. split; [auto|]. split; [exact (proj1 (comp_mono _ _ _ _ _ _ _ _ _ Ex))|auto].
+    - inversion Hc; subst. exists []. auto. }
+  destruct Hsh as (cx & -> & M4 & Hx). clear Hc.
+  std_facts. pose proof (conj S1 S2) as HS. destruct (stable_sub _ _ _ _ _ _ _ _ _ _ _ _ _ HS) as [S1' S2'].
+  assert (HJ0 : Jstd sc ce rho n0 (base + nv) o P vs n g) by (split; auto).
+  uncons Hat A0. destruct (code_at_app _ _ _ _ Hat) as [Hati Hat2]. fold q1 in Hat2.
+  uncons Hat2 A1. destruct (code_at_app _ _ _ _ Hat2) as [Hats Hat3]. fold q2 in Hat3.
+  uncons Hat3 A3. uncons Hat3 A4. destruct (code_at_app _ _ _ _ Hat3) as [Hatu Hat4]. fold q3 in Hat4.
+  uncons Hat4 A5. uncons Hat4 A6. rename Hat4 into Hatx.
+  subst c.
+  match goal with |- context [ctx_of sc (pc + length ?l)] =>
+    assert (Epc : pc + length l = S (S q3) + length cx)
+      by (simpl; repeat (rewrite app_length; simpl); unfold q3, q2, q1; lia); rewrite Epc in * end.
+  set (pend := S (S q3) + length cx) in *.
+  set (lo := base + nv) in *. set (hi := base + nv') in *.
+  set (c := ctx_of sc pend st fk lo hi o ko K ce n0 (ctr g)).
+  cbn [Den.den].
+  set (updf := fun w acc => den qu ((x, w) :: rho) acc).
+  set (extf := fun w u => match ext with Some e => den e ((x, w) :: rho) u | None => ([u], None) end).
+  match goal with |- G _ (fst (bind _ ?f)) _ _ => set (f0 := f) end.
+  pose proof (impl_inner qi IHi sc cur base Hcur ce (S pc) (S nv) sn ci n1 s1 Ec Hati rho v (SV v :: st) fk vs n n0 o g
+                ltac:(eapply envOK_lim; eauto; lia) Hn ltac:(unfold hi in *; lia) Hlen) as HA. cbv zeta in HA. fold q1 in HA.
+  eapply G_pre; [one st_dup; apply steps_refl|apply chg_refl|cl|].
+  eapply G_impl; [|refine (bind_std f0 (fun _ => True) sc q1 (SV v :: st) (base + S nv) (base + n1) pend st fk lo hi o ko K ce n0 (ctr g) rho lo P
+            (fun i => i = lo \/ base + n1 <= i < hi) ce HS ltac:(unfold lo; lia) ltac:(unfold hi; lia) Hko Hoo (le_n _) ltac:(unfold lo, hi; lia)
+            Hkl HK1 HK2 _ eq_refl _ _ (den qi rho v) _ HA _ (le_n _))].
+  { intros s0. apply Tend_weaken. intros p m z [Hp _]. exact Hp. }
+  { intros i [->|Hi]; unfold lo, hi in *; lia. }
+  { auto. }
+  2:{ split; auto. }
+  intros s0 fk' vs' n' o' z [Hj _] Ho' Ht' Hfk. pose proof Hj as (E' & Hn' & Hl' & Hp').
+  destruct (update_some vs' lo (SV s0)) as [vs1 U]; [unfold lo, hi in *; lia|].
+  destruct (update_spec _ _ _ _ U) as (UL & UN & UO).
+  assert (HJ1 : Jstd sc ce rho n0 lo o P vs1 n' z) by (eapply (Jstd_update _ _ _ _ _ _ lo hi); eauto; unfold lo, hi in *; lia).
+  set (F0 := fk' ++ fk) in *.
+  eapply G_pre; [one st_store; apply steps_refl|eapply chg_update; [exact U|simpl; auto]|cl|].
+  pose proof HJ1 as (E1 & Hn1 & Hl1 & Hp1).
+  pose proof (impl_inner qs IHs sc cur base Hcur ce (S q1) n1 s1 cs n2 s2 Ec0 Hats rho v st F0 vs1 n' n0 o' z
+                ltac:(eapply envOK_lim; eauto; unfold lo; lia) Hn1 ltac:(unfold hi in *; lia) ltac:(lia)) as HB. cbv zeta in HB. fold q2 in HB.
+  set (cB := cbody c (fun i => i = lo \/ base + n1 <= i < hi) ce fk' o' (ctr z)).
+  set (JgB := fun (a : jv) (a' : list sv) => nth_error a' lo = Some (SV a)).
+  destruct (den qs rho v) as [ws sx] eqn:Eds. cbn [fst snd] in HB.
+  destruct (foreach_foldgen updf extf ws s0) as (gB & EfB).
+  assert (HGB : G cB (fst (foreach_fold updf extf ws s0))
+                  (Tend cB (match snd (foreach_fold updf extf ws s0) with Some e => Some e | None => sx end)
+                     (fun a' m y => Jstd sc ce rho n0 lo o P a' m y /\ JgB gB a'))
+                  (N sc (S q1) (SV v :: st) F0 vs1 n' o' z)).
+  { refine (fold_gen (ctx_of sc q2 st F0 (base + n1) (base + n2) o' o' (fun i => base + n1 <= i < base + n2 \/ kept sc ce i) ce n0 (ctr z))
+              cB rho lo o P jv JgB (foreach_step updf extf) (fun i => i = lo \/ base + n2 <= i < hi) ce
+              eq_refl eq_refl eq_refl eq_refl eq_refl eq_refl eq_refl _ _ _ _ _ _ eq_refl _ _ _
+              ws s0 _ sx _ _ gB HB _ (le_n _) EfB).
+    - simpl. lia.
+    - simpl. unfold hi. intros; lia.
+    - simpl. unfold lo, hi in *. intros; lia.
+    - simpl; intros; lia.
+    - simpl. intros i [Hi|Hi].
+      + split; [apply HK1; unfold lo, hi; lia|]. split; [unfold lo, hi in *; lia|unfold hi in *; lia].
+      + pose proof (Hkl i Hi). split; [apply HK2; auto|]. split; [unfold lo, hi in *; lia|unfold lo, hi in *; lia].
+    - simpl. intros i Hi. apply Hkl in Hi. unfold lo, hi in *. lia.
+    - intros p q m y m' y' Hq C Hm. eapply S1'; [|exact Hq|exact C|exact Hm]. simpl; unfold lo, hi; intros; lia.
+    - intros a p q Hg C. unfold JgB in *. rewrite <- Hg. symmetry. apply C. simpl. unfold lo. lia.
+    - (* one source output w, accumulator a *)
+      intros w a fk2 vs2 m2 o2 z2 os2 x2 g2 [Hj2 Hg2] Ho2 Ht2 Hfk2 Efb. unfold foreach_step in Efb. simpl in Ho2.
+      pose proof (foreach_upd_foldgen (extf w) (fst (updf w a)) a) as EfC.
+      inversion Efb; subst os2 x2 g2. clear Efb.
+      pose proof (upd_level qu IHu sc cur base Hcur ce x n2 q2 s2 cu n3 s3 Ec1 Hatu nv A3 A4 rho w st (fk2 ++ F0) K n0 hi o ko P pend
+                (fun (_ : jv) u => (fst (extf w u), snd (extf w u), u)) (fun i => i = lo \/ base + n3 <= i < hi) o2 z2) as HU.
+      cbv zeta in HU. fold lo in HU.
+      refine (HU ltac:(lia) ltac:(unfold hi; lia) Hko Hoo ltac:(simpl in Ho2; lia) HK1 HK2 Hkl S1' S2' _ _ a vs2 m2 Hj2 Hg2 ltac:(simpl in Ho2; lia) _ _ _ EfC).
+      + intros i Hi. exact Hi.
+      + (* one update output u: dup; store acc; extract *)
+        intros u g3 fk3 vs3 m3 o3 z3 os3 x3 g3' [Hj3 Hg3] Ho3 Ht3 Hfk3 Efc. inversion Efc; subst os3 x3 g3'. clear Efc. simpl in Ho3, Ht3.
+        pose proof Hj3 as (E3 & Hn3 & Hl3 & Hp3).
+        destruct (update_some vs3 lo (SV u)) as [vs4 U4]; [unfold lo, hi in *; simpl in Ho2; lia|].
+        destruct (update_spec _ _ _ _ U4) as (UL4 & UN4 & UO4).
+        assert (Hnk : ~ kept sc ce3 lo).
+        { intros Hk. apply (kept_add_var _ _ _ _ _ _ (Hcur n2)) in Hk. destruct Hk as [Hk|Hk]; [unfold lo in *; lia|apply Hkl in Hk; lia]. }
+        set (P3 := Jstd sc ce rho n0 lo o P) in *.
+        assert (HJ4 : Jstd sc ce3 ((x, w) :: rho) n0 (base + S n2) o2 P3 vs4 m3 z3).
+        { eapply Jstd_update_gen; [exact Hj3|exact U4|exact Hnk|].
+          eapply (Jstd_update _ _ _ _ _ _ lo hi); [exact S1'|exact Hp3|exact U4|unfold lo, hi; lia|lia]. }
+        eapply G_pre; [one st_dup; one st_store; apply steps_refl|eapply chg_update; [exact U4|simpl; auto]|cl|].
+        set (JC := fun a' m (y : gx) => Jstd sc ce3 ((x, w) :: rho) n0 (base + S n2) o2 P3 a' m y /\ nth_error a' lo = Some (SV u)).
+        assert (JCk : forall cx' oo p q m y m' y', g_keep cx' = K -> g_koff cx' = ko -> o <= oo -> JC p m y -> keepK cx' p q -> cle m y m' y' -> JC q m' y').
+        { intros cx' oo p q m y m' y' HKe Hkoe Hoo' [(Eq & Hnq & Hlq & Hpq) Hgq] Kp Hm. split.
+          - split; [eapply envOK_keep; [exact Eq|exact Kp|]|].
+            + rewrite HKe. intros i Hi. apply (kept_add_var _ _ _ _ _ _ (Hcur n2)) in Hi. destruct Hi as [->|Hi]; [apply HK1; unfold lo, hi; lia|auto].
+            + split; [destruct Hm; lia|]. split; [destruct Kp; lia|].
+              refine (Jstd_stable_cx cx' _ _ _ _ _ _ _ _ _ _ K S1' S2' HK2 HKe Hkoe oo _ _ _ _ _ _ Hoo' Hpq Kp Hm).
+          - rewrite <- Hgq. symmetry. apply Kp. rewrite HKe. apply HK1. unfold lo, hi. lia. }
+        unfold extf. destruct ext as [e|].
+        * set (cbx := cbody {| g_sc := sc; g_pc := pend; g_st := st; g_base := fk2 ++ F0;
+                               g_own := fun i => i = lo \/ base + S n2 <= i < hi \/ o2 <= i;
+                               g_keep := K; g_ce := ce3; g_n0 := n0; g_off := o2; g_koff := ko; g_ctr := ctr z2 |}
+                            (fun i => i = lo \/ base + n3 <= i < hi) ce3 fk3 o3 (ctr z3)).
+          apply (impl_body e IHx sc cur base Hcur ce3 (S (S q3)) n3 s3 cx nv' sn' Hx Hatx cbx
+                   ((x, w) :: rho) u vs4 m3 o3 z3 JC); subst cbx; simpl.
+          -- reflexivity.
+          -- reflexivity.
+          -- reflexivity.
+          -- reflexivity.
+          -- intros i [Hi|Hi]; [left; right; unfold hi; lia|right; lia].
+          -- intros; apply HK1; unfold lo, hi; lia.
+          -- intros i Hi. apply (kept_add_var _ _ _ _ _ _ (Hcur n2)) in Hi. destruct Hi as [->|Hi]; [apply HK1; unfold lo, hi; lia|auto].
+          -- destruct HJ4 as (E4 & _). eapply envOK_lim; eauto. lia.
+          -- lia.
+          -- unfold hi in *. lia.
+          -- simpl in Ho2. lia.
+          -- lia.
+          -- lia.
+          -- intros p q m y m' y' [(Eq & Hnq & Hlq & Hpq) Hgq] C Hm. split.
+             ++ split; [eapply envOK_chg; [exact Eq|exact C|simpl; intros; unfold hi in *; lia]|]. split; [destruct Hm; lia|]. split; [destruct C; lia|].
+                unfold P3 in *. eapply (Jstd_chg' _ _ _ _ _ _ lo hi); [exact S1'| |exact Hpq|exact C|exact Hm]. simpl; unfold lo, hi; intros; lia.
+             ++ rewrite <- Hgq. symmetry. apply C. unfold lo. lia.
+          -- intros oo p q m y m' y' Hoo' Hq Kp Hm. refine (JCk _ oo p q m y m' y' _ _ _ Hq Kp Hm); [reflexivity|reflexivity|simpl in Ho2; lia].
+          -- split; [exact HJ4|exact UN4].
+        * destruct Hx as [-> ->]. cbn [fst snd].
+          eapply G_single with (o3 := o3); [simpl g_pc; simpl g_st; simpl g_base; simpl g_sc; unfold pend; simpl; rewrite Nat.add_0_r; apply steps_refl
+                           |apply chg_refl|cl|simpl; destruct (update_spec _ _ _ _ U4); lia|].
+          intros vs5 n5 g5 Kp L5. refine (JCk _ o3 vs4 vs5 m3 z3 n5 g5 _ _ _ _ Kp L5); [reflexivity|reflexivity|simpl in Ho2; lia|].
+          split; [exact HJ4|exact UN4].
+    - split; [exact HJ1|exact UN]. }
+  unfold f0. try rewrite Eds. fold updf. fold extf. cbv beta iota.
+  destruct (foreach_fold updf extf ws s0) as [os [ex|]] eqn:Eff; cbn [seq fst snd] in *.
+  - eapply G_impl; [|exact HGB]. intros s1'. apply Tend_weaken. intros p m y [Hq _]. split; auto.
+  - rewrite app_nil_r. eapply G_impl; [|exact HGB]. intros s1'. apply Tend_weaken. intros p m y [Hq _]. split; auto.
 Qed.
 
 End C.
